@@ -1,780 +1,3 @@
-// GENERATED by harness/gen/zoo.py - build artefact, do not edit
-pub const GEN_HASH: &str = "1db95aa4523cc408";
-#[derive(SystemData)] pub struct Z2_0<'a> { pub f0: Read<'a, D2>, }
-shredh::zoo_case!(c2, 2, 'a, Z2_0<'a>);
-shredh::zoo_case!(c10, 10, 'a, (Read<'a, D3, PanicHandler>, Option<Read<'a, D2, PanicHandler>>, Read<'a, D3, DefaultProvider>, ));
-#[derive(SystemData)] pub struct Z18_0<'a>(PhantomData<&'a u8>);
-shredh::zoo_case!(c18, 18, 'a, (Read<'a, N0, PanicHandler>, Z18_0<'a>, ));
-#[derive(SystemData)] pub struct Z26_0<'a, T0: Debug + Resource, T1: Debug + Resource, U0: SystemData<'a>>(Write<'a, T0, PanicHandler>, Option<Read<'a, T1>>, U0);
-shredh::zoo_case!(c26, 26, 'a, Z26_0<'a, D2, D3, Read<'a, D3>>);
-shredh::zoo_case!(c34, 34, 'a, ((Read<'a, D2, Hc<D1>>, ), (), ));
-#[derive(SystemData)] pub struct Z42_0<'a, T0, T1> where T0: Resource, T1: Resource + ZRes + Default { f0: Read<'a, T0, PanicHandler>, f1: Write<'a, N2, PanicHandler>, f2: Read<'a, T1, DefaultProvider>, }
-shredh::zoo_case!(c42, 42, 'a, Z42_0<'a, N2, D0>);
-#[derive(SystemData)] pub struct Z50_1<'a> { f0: Read<'a, D3, Hc<D2>>, }
-#[derive(SystemData)] pub struct Z50_0<'a> { f0: Z50_1<'a>, f1: Read<'a, D3, Hc<D2>>, }
-shredh::zoo_case!(c50, 50, 'a, Z50_0<'a>);
-shredh::zoo_case!(c58, 58, 'a, Option<Write<'a, N0>>);
-shredh::zoo_case!(c66, 66, 'a, (Read<'a, D1, Hc<D2>>, Write<'a, D2, DefaultProvider>, ));
-#[derive(SystemData)] pub struct Z74_0<'a> { f0: Read<'a, D3, Hc<D2>>, }
-shredh::zoo_case!(c74, 74, 'a, (Z74_0<'a>, ));
-#[derive(SystemData)] pub struct Z82_0<'a>(Option<Write<'a, N3, PanicHandler>>, PhantomData<&'a u8>);
-shredh::zoo_case!(c82, 82, 'a, Z82_0<'a>);
-#[derive(SystemData)] pub struct Z90_1<'a> { f0: PhantomData<&'a u8>, }
-#[derive(SystemData)] pub struct Z90_0<'a>(pub Z90_1<'a>);
-shredh::zoo_case!(c90, 90, 'a, Z90_0<'a>);
-#[derive(SystemData)] pub struct Z98_0<'a> { f0: Write<'a, D2, Hc<D3>>, f1: PhantomData<D0>, }
-shredh::zoo_case!(c98, 98, 'a, Z98_0<'a>);
-#[derive(SystemData)] pub struct Z106_0<'a> { f0: (Read<'a, D0, Hc<D1>>, ), }
-shredh::zoo_case!(c106, 106, 'a, Z106_0<'a>);
-#[derive(SystemData)] pub struct Z114_0<'a, T0>(Read<'a, T0, PanicHandler>) where T0: Debug + Resource + for<'b> Hrtb<'b>;
-shredh::zoo_case!(c114, 114, 'a, (Z114_0<'a, N1>, ((), ), ));
-shredh::zoo_case!(c122, 122, 'a, (Option<WriteExpect<'a, N0>>, ));
-#[derive(SystemData)] pub struct Z130_1<'a>(pub ReadExpect<'a, D2>);
-#[derive(SystemData)] pub struct Z130_2<'a, T0: Debug + Resource + for<'b> Hrtb<'b>>(Write<'a, T0, Hc<D0>>);
-#[derive(SystemData)] pub struct Z130_0<'a>(Z130_1<'a>, Z130_2<'a, D2>);
-shredh::zoo_case!(c130, 130, 'a, Z130_0<'a>);
-#[derive(SystemData)] pub struct Z138_0<'a, T0>(pub Read<'a, T0>) where T0: Debug + Resource + Default;
-shredh::zoo_case!(c138, 138, 'a, Z138_0<'a, D2>);
-#[derive(SystemData)] pub struct Z146_0<'a> { f0: (Write<'a, D1, DefaultProvider>, ), f1: (Read<'a, D1>, ), }
-shredh::zoo_case!(c146, 146, 'a, Z146_0<'a>);
-#[derive(SystemData)] pub struct Z154_0<'a> { f0: PhantomData<&'a u8>, }
-shredh::zoo_case!(c154, 154, 'a, Z154_0<'a>);
-shredh::zoo_case!(c162, 162, 'a, (PhantomData<&'a u8>, Option<ReadExpect<'a, D3>>, PhantomData<fn() -> N2>, ));
-shredh::zoo_case!(c170, 170, 'a, ((Write<'a, D2>, ), Write<'a, D2>, ));
-#[derive(SystemData)] pub struct Z178_0<'a>(pub Write<'a, D2>, pub WriteExpect<'a, D2>, pub WriteExpect<'a, D2>);
-shredh::zoo_case!(c178, 178, 'a, Z178_0<'a>);
-#[derive(SystemData)] pub struct Z186_0<'a>((Option<ReadExpect<'a, D2>>, ), Read<'a, D1, Hc<D2>>);
-shredh::zoo_case!(c186, 186, 'a, Z186_0<'a>);
-#[derive(SystemData)] pub struct Z194_0<'a, 'x> { pub f0: WriteExpect<'a, D0>, pub f1: PhantomData<&'x i64>, pub f2: Read<'a, D0, DefaultProvider>, }
-shredh::zoo_case!(c194, 194, 'a, Z194_0<'a, 'a>);
-#[derive(SystemData)] pub struct Z202_1<'a>(pub Read<'a, D0>);
-#[derive(SystemData)] pub struct Z202_0<'a> { pub f0: Z202_1<'a>, pub f1: Read<'a, D0, Hc<D3>>, }
-shredh::zoo_case!(c202, 202, 'a, Z202_0<'a>);
-shredh::zoo_case!(c210, 210, 'a, Write<'a, D1>);
-shredh::zoo_case!(c218, 218, 'a, (Option<Write<'a, N3, PanicHandler>>, Option<WriteExpect<'a, N3>>, ));
-#[derive(SystemData)] pub struct Z226_0<'a>(Read<'a, D2, Hc<D1>>);
-shredh::zoo_case!(c226, 226, 'a, (Z226_0<'a>, ));
-#[derive(SystemData)] pub struct Z234_0<'a, U0: SystemData<'a>>(Read<'a, D1, DefaultProvider>, U0);
-shredh::zoo_case!(c234, 234, 'a, Z234_0<'a, Read<'a, D0, Hc<D1>>>);
-#[derive(SystemData)] pub struct Z242_0<'a>(pub (Write<'a, D0, Hc<D1>>, ));
-shredh::zoo_case!(c242, 242, 'a, Z242_0<'a>);
-#[derive(SystemData)] pub struct Z250_0<'a> { f0: Read<'a, D2>, f1: Read<'a, D0>, }
-shredh::zoo_case!(c250, 250, 'a, Z250_0<'a>);
-#[derive(SystemData)] pub struct Z258_0<'a> { f0: (Write<'a, D1, DefaultProvider>, ), }
-shredh::zoo_case!(c258, 258, 'a, Z258_0<'a>);
-#[derive(SystemData)] pub struct Z266_0<'a> { f0: Write<'a, D0, PanicHandler>, }
-#[derive(SystemData)] pub struct Z266_1<'a, T0: Debug + Resource> { f0: Read<'a, T0, Hc<D3>>, }
-shredh::zoo_case!(c266, 266, 'a, (Z266_0<'a>, Z266_1<'a, D0>, ));
-shredh::zoo_case!(c274, 274, 'a, (Option<Read<'a, N1>>, ));
-#[derive(SystemData)] pub struct Z282_1<'a>(pub Option<Write<'a, D2, PanicHandler>>);
-#[derive(SystemData)] pub struct Z282_2<'a, T0: Resource + ZRes> { pub f0: Write<'a, T0, Hc<D1>>, }
-#[derive(SystemData)] pub struct Z282_0<'a, U0>(pub Z282_1<'a>, pub U0) where U0: SystemData<'a>;
-shredh::zoo_case!(c282, 282, 'a, Z282_0<'a, Z282_2<'a, D2>>);
-#[derive(SystemData)] pub struct Z290_0<'a, T0: Debug + Resource>(Read<'a, T0, Hc<D1>>);
-shredh::zoo_case!(c290, 290, 'a, Z290_0<'a, D0>);
-shredh::zoo_case!(c298, 298, 'a, ((Write<'a, D0, DefaultProvider>, ), (Write<'a, D1, Hc<D0>>, ), ));
-#[derive(SystemData)] pub struct Z306_0<'a, T0: Debug + Resource + for<'b> Hrtb<'b>> { pub f0: Option<Write<'a, T0, PanicHandler>>, }
-shredh::zoo_case!(c306, 306, 'a, Z306_0<'a, N0>);
-shredh::zoo_case!(c314, 314, 'a, (Write<'a, D0, PanicHandler>, Write<'a, D0, DefaultProvider>, Read<'a, D1>, ));
-shredh::zoo_case!(c322, 322, 'a, (((), ), (), ));
-#[derive(SystemData)] pub struct Z330_0<'a, T0: Resource, T1, T2: Debug + Resource + for<'b> Hrtb<'b>>(pub Option<Read<'a, T0>>, pub Write<'a, T1, PanicHandler>, pub Option<Write<'a, T2, PanicHandler>>) where T1: Debug + Resource;
-shredh::zoo_case!(c330, 330, 'a, Z330_0<'a, D0, D0, D0>);
-#[derive(SystemData)] pub struct Z338_0<'a>(pub Write<'a, D1, Hc<D0>>, pub (Option<Write<'a, D1, PanicHandler>>, ));
-shredh::zoo_case!(c338, 338, 'a, Z338_0<'a>);
-#[derive(SystemData)] pub struct Z346_0<'a, T0, T1: Debug + Resource + for<'b> Hrtb<'b>> where T0: Debug + Resource + for<'b> Hrtb<'b> { f0: Write<'a, T0, PanicHandler>, f1: Read<'a, D1, DefaultProvider>, f2: Option<Read<'a, T1, PanicHandler>>, }
-shredh::zoo_case!(c346, 346, 'a, Z346_0<'a, D1, N2>);
-#[derive(SystemData)] pub struct Z354_0<'a, T0: Resource> { f0: Write<'a, T0, Hc<D1>>, f1: (Read<'a, D2, Hc<D1>>, ), }
-shredh::zoo_case!(c354, 354, 'a, Z354_0<'a, D2>);
-shredh::zoo_case!(c362, 362, 'a, Write<'a, D1, Hc<D0>>);
-shredh::zoo_case!(c370, 370, 'a, (Write<'a, D3>, Write<'a, D3>, ));
-#[derive(SystemData)] pub struct Z378_0<'a, T0: Resource> { pub f0: Option<Read<'a, T0>>, }
-shredh::zoo_case!(c378, 378, 'a, (Z378_0<'a, N0>, ));
-#[derive(SystemData)] pub struct Z386_0<'a>(Write<'a, D1, Hc<D2>>, ());
-shredh::zoo_case!(c386, 386, 'a, Z386_0<'a>);
-shredh::zoo_case!(c394, 394, 'a, ((Read<'a, D1, Hc<D3>>, ), ));
-shredh::zoo_case!(c402, 402, 'a, (Option<WriteExpect<'a, N0>>, WriteExpect<'a, N2>, ));
-#[derive(SystemData)] pub struct Z410_0<'a> { pub f0: (WriteExpect<'a, N1>, ), }
-shredh::zoo_case!(c410, 410, 'a, Z410_0<'a>);
-#[derive(SystemData)] pub struct Z418_0<'a, T0: Debug + Resource + for<'b> Hrtb<'b>> { pub f0: Option<WriteExpect<'a, T0>>, }
-shredh::zoo_case!(c418, 418, 'a, ((Write<'a, D0, Hc<D3>>, ), Z418_0<'a, D0>, ));
-shredh::zoo_case!(c426, 426, 'a, (Read<'a, D2, Hc<D0>>, ));
-#[derive(SystemData)] pub struct Z434_1<'a, T0: Resource + ZRes>(pub Read<'a, T0, Hc<D0>>);
-#[derive(SystemData)] pub struct Z434_0<'a, U0>((Read<'a, D1, DefaultProvider>, ), U0) where U0: SystemData<'a>;
-shredh::zoo_case!(c434, 434, 'a, Z434_0<'a, Z434_1<'a, D1>>);
-shredh::zoo_case!(c442, 442, 'a, (Read<'a, D3, Hc<D0>>, ));
-#[derive(SystemData)] pub struct Z450_1<'a>(pub Option<Write<'a, N0, PanicHandler>>);
-#[derive(SystemData)] pub struct Z450_2<'a, T0>(pub Read<'a, T0, PanicHandler>) where T0: Debug + Resource;
-#[derive(SystemData)] pub struct Z450_0<'a> { pub f0: Z450_1<'a>, pub f1: Z450_2<'a, N0>, }
-shredh::zoo_case!(c450, 450, 'a, Z450_0<'a>);
-#[derive(SystemData)] pub struct Z458_0<'a, T0: Debug + Resource> { f0: Write<'a, T0, Hc<D0>>, }
-shredh::zoo_case!(c458, 458, 'a, Z458_0<'a, D1>);
-shredh::zoo_case!(c466, 466, 'a, (Write<'a, D1, DefaultProvider>, ReadExpect<'a, N3>, Option<WriteExpect<'a, N3>>, ));
-#[derive(SystemData)] pub struct Z474_0<'a, T0>(pub Option<Write<'a, T0, PanicHandler>>) where T0: Debug + Resource + for<'b> Hrtb<'b>;
-shredh::zoo_case!(c474, 474, 'a, (Read<'a, D2, Hc<D1>>, Z474_0<'a, D2>, ));
-shredh::zoo_case!(c482, 482, 'a, ((), Option<WriteExpect<'a, D3>>, Option<Write<'a, D3, PanicHandler>>, ));
-#[derive(SystemData)] pub struct Z490_1<'a, T0>(pub Read<'a, T0, PanicHandler>) where T0: Debug + Resource;
-#[derive(SystemData)] pub struct Z490_0<'a, U0: SystemData<'a>>(pub U0, pub Write<'a, D1, Hc<D2>>);
-shredh::zoo_case!(c490, 490, 'a, Z490_0<'a, Z490_1<'a, D2>>);
-#[derive(SystemData)] pub struct Z498_0<'a, 'x, T0> where T0: Debug + Resource { f0: PhantomData<&'x i64>, f1: Read<'a, T0, DefaultProvider>, f2: (), }
-shredh::zoo_case!(c498, 498, 'a, Z498_0<'a, 'static, D1>);
-#[derive(SystemData)] pub struct Z506_1<'a>(Read<'a, N0, PanicHandler>);
-#[derive(SystemData)] pub struct Z506_0<'a> { f0: Option<Read<'a, N0, PanicHandler>>, f1: Z506_1<'a>, }
-shredh::zoo_case!(c506, 506, 'a, Z506_0<'a>);
-shredh::zoo_case!(c514, 514, 'a, Read<'a, D0, Hc<D3>>);
-shredh::zoo_case!(c522, 522, 'a, (Read<'a, D1, Hc<D3>>, Option<Read<'a, D1>>, ));
-#[derive(SystemData)] pub struct Z530_0<'a, T0> where T0: Debug + Resource + for<'b> Hrtb<'b> { pub f0: Write<'a, T0, Hc<D0>>, }
-shredh::zoo_case!(c530, 530, 'a, (Z530_0<'a, D1>, ));
-#[derive(SystemData)] pub struct Z538_0<'a, T0: Resource + ZRes, T1: Debug + Resource>(Option<Write<'a, T0, PanicHandler>>, Option<Read<'a, T1>>);
-shredh::zoo_case!(c538, 538, 'a, Z538_0<'a, N1, N1>);
-#[derive(SystemData)] pub struct Z546_0<'a>(pub (Write<'a, D2, Hc<D3>>, ));
-shredh::zoo_case!(c546, 546, 'a, Z546_0<'a>);
-#[derive(SystemData)] pub struct Z554_0<'a, U0: SystemData<'a>> { pub f0: U0, pub f1: Write<'a, D3, Hc<D2>>, }
-shredh::zoo_case!(c554, 554, 'a, Z554_0<'a, Read<'a, D3>>);
-#[derive(SystemData)] pub struct Z562_1<'a>(Read<'a, D2, Hc<D3>>);
-#[derive(SystemData)] pub struct Z562_0<'a> { f0: Z562_1<'a>, }
-shredh::zoo_case!(c562, 562, 'a, Z562_0<'a>);
-#[derive(SystemData)] pub struct Z570_0<'a>(Read<'a, D0, Hc<D3>>);
-shredh::zoo_case!(c570, 570, 'a, ((PhantomData<&'a u8>, ), Z570_0<'a>, ));
-shredh::zoo_case!(c578, 578, 'a, (Write<'a, N2, PanicHandler>, ));
-#[derive(SystemData)] pub struct Z586_0<'a>((Option<Write<'a, D3>>, ), (Write<'a, D2, Hc<D3>>, ));
-shredh::zoo_case!(c586, 586, 'a, Z586_0<'a>);
-#[derive(SystemData)] pub struct Z594_0<'a, T0: Resource>(Write<'a, T0, DefaultProvider>);
-shredh::zoo_case!(c594, 594, 'a, Z594_0<'a, D2>);
-#[derive(SystemData)] pub struct Z602_1<'a>(pub Write<'a, D1>);
-#[derive(SystemData)] pub struct Z602_2<'a>(pub Write<'a, D1, Hc<D2>>);
-#[derive(SystemData)] pub struct Z602_0<'a> { pub f0: Z602_1<'a>, pub f1: Z602_2<'a>, }
-shredh::zoo_case!(c602, 602, 'a, Z602_0<'a>);
-#[derive(SystemData)] pub struct Z610_0<'a, 'x, T0: Debug + Resource + for<'b> Hrtb<'b>, T1: Debug + Resource> { pub f0: PhantomData<&'x i64>, pub f1: Option<WriteExpect<'a, T0>>, pub f2: Read<'a, T1, DefaultProvider>, }
-shredh::zoo_case!(c610, 610, 'a, Z610_0<'a, 'a, D2, D2>);
-#[derive(SystemData)] pub struct Z618_0<'a>(pub (Option<Write<'a, N1, PanicHandler>>, ));
-shredh::zoo_case!(c618, 618, 'a, Z618_0<'a>);
-#[derive(SystemData)] pub struct Z626_0<'a, T0: Resource + ZRes>(Option<Write<'a, N1>>, Option<Write<'a, T0>>);
-shredh::zoo_case!(c626, 626, 'a, Z626_0<'a, N1>);
-shredh::zoo_case!(c634, 634, 'a, (Option<Write<'a, D0, PanicHandler>>, (Read<'a, D1, Hc<D0>>, ), ));
-#[derive(SystemData)] pub struct Z642_0<'a, U0>(pub Read<'a, D2, DefaultProvider>, pub U0, pub Read<'a, D2, DefaultProvider>) where U0: SystemData<'a>;
-shredh::zoo_case!(c642, 642, 'a, Z642_0<'a, Write<'a, D3, DefaultProvider>>);
-#[derive(SystemData)] pub struct Z650_1<'a>(Write<'a, D3, Hc<D0>>);
-#[derive(SystemData)] pub struct Z650_0<'a>(pub (Write<'a, D3>, ), pub Z650_1<'a>);
-shredh::zoo_case!(c650, 650, 'a, Z650_0<'a>);
-shredh::zoo_case!(c658, 658, 'a, (ReadExpect<'a, N2>, Option<ReadExpect<'a, D0>>, ));
-#[derive(SystemData)] pub struct Z666_0<'a, T0: Debug + Resource + Default> { f0: Read<'a, T0>, }
-shredh::zoo_case!(c666, 666, 'a, (Z666_0<'a, D2>, ));
-shredh::zoo_case!(c674, 674, 'a, (WriteExpect<'a, D3>, PhantomData<&'a u8>, Option<Read<'a, N2, PanicHandler>>, ));
-#[derive(SystemData)] pub struct Z682_0<'a, T0: Resource> { pub f0: WriteExpect<'a, D1>, pub f1: Read<'a, T0, DefaultProvider>, pub f2: (), }
-shredh::zoo_case!(c682, 682, 'a, Z682_0<'a, D3>);
-#[derive(SystemData)] pub struct Z690_1<'a>(Read<'a, D2, Hc<D1>>);
-#[derive(SystemData)] pub struct Z690_0<'a>(pub (PhantomData<(Write<'a, D1>,)>, ), pub Z690_1<'a>);
-shredh::zoo_case!(c690, 690, 'a, Z690_0<'a>);
-shredh::zoo_case!(c698, 698, 'a, (Read<'a, N1, PanicHandler>, Read<'a, N1, PanicHandler>, PhantomData<(Write<'a, D1>,)>, ));
-#[derive(SystemData)] pub struct Z706_0<'a, U0: SystemData<'a>, U1: SystemData<'a>> { f0: U0, f1: Write<'a, D1, DefaultProvider>, f2: U1, }
-shredh::zoo_case!(c706, 706, 'a, Z706_0<'a, Read<'a, D3, PanicHandler>, Read<'a, D3, PanicHandler>>);
-#[derive(SystemData)] pub struct Z714_0<'a>(pub (Read<'a, D3, Hc<D2>>, ), pub (PhantomData<[u32]>, ));
-shredh::zoo_case!(c714, 714, 'a, Z714_0<'a>);
-shredh::zoo_case!(c722, 722, 'a, (Write<'a, D0, DefaultProvider>, (), Option<Write<'a, D0>>, ));
-#[derive(SystemData)] pub struct Z730_0<'a, T0: Debug + Resource, T1: Resource + ZRes, T2: Debug + Resource> { pub f0: Write<'a, T0, PanicHandler>, pub f1: ReadExpect<'a, T1>, pub f2: Option<Read<'a, T2>>, }
-shredh::zoo_case!(c730, 730, 'a, Z730_0<'a, N2, D3, D3>);
-#[derive(SystemData)] pub struct Z738_1<'a>(PhantomData<(Write<'a, D1>,)>);
-#[derive(SystemData)] pub struct Z738_0<'a, U0: SystemData<'a>>((Option<WriteExpect<'a, N1>>, ), U0);
-shredh::zoo_case!(c738, 738, 'a, Z738_0<'a, Z738_1<'a>>);
-shredh::zoo_case!(c746, 746, 'a, (ReadExpect<'a, D0>, PhantomData<(Write<'a, D1>,)>, ReadExpect<'a, N2>, ));
-#[derive(SystemData)] pub struct Z754_0<'a, T0, T1> where T0: Resource + ZRes + Default, T1: Debug + Resource { f0: PhantomData<[u32]>, f1: Read<'a, T0, DefaultProvider>, f2: Read<'a, T1>, }
-shredh::zoo_case!(c754, 754, 'a, Z754_0<'a, D2, D3>);
-#[derive(SystemData)] pub struct Z762_0<'a>(pub (Write<'a, N0, PanicHandler>, ), pub ((), ));
-shredh::zoo_case!(c762, 762, 'a, Z762_0<'a>);
-shredh::zoo_case!(c770, 770, 'a, (Write<'a, D1, PanicHandler>, WriteExpect<'a, N2>, Read<'a, D1>, ));
-#[derive(SystemData)] pub struct Z778_0<'a> { pub f0: Option<Read<'a, D0>>, pub f1: Write<'a, D0>, pub f2: Read<'a, D0, DefaultProvider>, }
-shredh::zoo_case!(c778, 778, 'a, Z778_0<'a>);
-#[derive(SystemData)] pub struct Z786_0<'a>((Write<'a, D1, Hc<D0>>, ), (Write<'a, D0, Hc<D1>>, ));
-shredh::zoo_case!(c786, 786, 'a, Z786_0<'a>);
-shredh::zoo_case!(c794, 794, 'a, (Read<'a, D0, DefaultProvider>, Read<'a, D3>, Option<Write<'a, D3, PanicHandler>>, ));
-#[derive(SystemData)] pub struct Z802_0<'a, T0: Debug + Resource + for<'b> Hrtb<'b>, T1: Debug + Resource + for<'b> Hrtb<'b>, T2: Debug + Resource + for<'b> Hrtb<'b>> { f0: Write<'a, T0, PanicHandler>, f1: Read<'a, T1, DefaultProvider>, f2: Option<Read<'a, T2, PanicHandler>>, }
-shredh::zoo_case!(c802, 802, 'a, Z802_0<'a, D0, D2, D0>);
-#[derive(SystemData)] pub struct Z810_1<'a> { f0: Write<'a, D0>, }
-#[derive(SystemData)] pub struct Z810_2<'a>(pub Read<'a, D1, Hc<D0>>);
-#[derive(SystemData)] pub struct Z810_0<'a>(Z810_1<'a>, Z810_2<'a>);
-shredh::zoo_case!(c810, 810, 'a, Z810_0<'a>);
-shredh::zoo_case!(c818, 818, 'a, (Write<'a, D3, DefaultProvider>, Option<WriteExpect<'a, D3>>, Read<'a, D3>, ));
-#[derive(SystemData)] pub struct Z826_0<'a> { f0: Option<Write<'a, D0, PanicHandler>>, f1: Read<'a, N2, PanicHandler>, f2: Read<'a, D0, PanicHandler>, }
-shredh::zoo_case!(c826, 826, 'a, Z826_0<'a>);
-#[derive(SystemData)] pub struct Z834_1<'a> { pub f0: Option<ReadExpect<'a, N3>>, }
-#[derive(SystemData)] pub struct Z834_0<'a>(Z834_1<'a>, (Option<ReadExpect<'a, N3>>, ));
-shredh::zoo_case!(c834, 834, 'a, Z834_0<'a>);
-shredh::zoo_case!(c842, 842, 'a, (Read<'a, D2, DefaultProvider>, Write<'a, D2, PanicHandler>, Write<'a, D3>, ));
-#[derive(SystemData)] pub struct Z850_0<'a> { pub f0: ReadExpect<'a, D1>, pub f1: Write<'a, D1, DefaultProvider>, pub f2: Write<'a, D3>, }
-shredh::zoo_case!(c850, 850, 'a, Z850_0<'a>);
-#[derive(SystemData)] pub struct Z858_1<'a> { f0: Option<Read<'a, D2>>, }
-#[derive(SystemData)] pub struct Z858_0<'a>(Z858_1<'a>, (Read<'a, D2>, ));
-shredh::zoo_case!(c858, 858, 'a, Z858_0<'a>);
-shredh::zoo_case!(c866, 866, 'a, (Read<'a, N1, PanicHandler>, Option<Write<'a, N1>>, Write<'a, D2>, ));
-#[derive(SystemData)] pub struct Z874_0<'a> { pub f0: Option<Read<'a, D2, PanicHandler>>, pub f1: Option<Write<'a, D2, PanicHandler>>, pub f2: Option<ReadExpect<'a, D1>>, }
-shredh::zoo_case!(c874, 874, 'a, Z874_0<'a>);
-#[derive(SystemData)] pub struct Z882_1<'a>(Read<'a, D1, Hc<D0>>);
-#[derive(SystemData)] pub struct Z882_0<'a>(Z882_1<'a>, (Write<'a, D1, PanicHandler>, ));
-shredh::zoo_case!(c882, 882, 'a, Z882_0<'a>);
-shredh::zoo_case!(c890, 890, 'a, (Read<'a, D3>, Option<Write<'a, D3>>, WriteExpect<'a, D3>, ));
-#[derive(SystemData)] pub struct Z898_0<'a> { f0: Write<'a, D1>, f1: (), f2: (), }
-shredh::zoo_case!(c898, 898, 'a, Z898_0<'a>);
-shredh::zoo_case!(c906, 906, 'a, ((), (), (), ));
-shredh::zoo_case!(c914, 914, 'a, ((), (), (), Option<Read<'a, D3, PanicHandler>>, (), ));
-shredh::zoo_case!(c922, 922, 'a, ((), (), (), (), (), PhantomData<&'a u8>, ));
-shredh::zoo_case!(c930, 930, 'a, ((), (), (), (), (), (), Option<WriteExpect<'a, D1>>, ));
-shredh::zoo_case!(c938, 938, 'a, ((), (), (), (), (), (), Option<Read<'a, N2>>, (), ));
-shredh::zoo_case!(c946, 946, 'a, ((), (), (), (), (), Read<'a, D0>, (), (), (), (), ));
-shredh::zoo_case!(c954, 954, 'a, ((), (), Option<Write<'a, D2>>, (), (), (), (), (), (), (), (), (), (), ));
-shredh::zoo_case!(c962, 962, 'a, ((), (), (), (), (), (), (), (), (), (), Read<'a, D2, Hc<D2>>, (), (), ));
-shredh::zoo_case!(c970, 970, 'a, ((), (), (), (), Write<'a, D2, Hc<D2>>, (), (), (), (), (), (), (), (), (), (), ));
-shredh::zoo_case!(c978, 978, 'a, ((), (), (), (), (), (), (), (), (), (), (), (), Read<'a, D3>, (), (), ));
-shredh::zoo_case!(c986, 986, 'a, ((), (), (), (), PhantomData<(Write<'a, D1>,)>, (), (), (), (), (), (), (), (), (), (), (), (), (), (), (), (), ));
-shredh::zoo_case!(c994, 994, 'a, ((), (), (), (), (), (), (), (), (), (), (), (), Option<Write<'a, N3, PanicHandler>>, (), (), (), (), (), (), (), (), ));
-shredh::zoo_case!(c1002, 1002, 'a, ((), (), (), (), (), (), (), (), (), (), (), (), (), (), (), (), (), (), (), (), Read<'a, N0, PanicHandler>, ));
-shredh::zoo_case!(c1010, 1010, 'a, ((), (), (), (), (), (), Write<'a, D1>, (), (), (), (), (), (), (), (), (), (), (), (), (), (), (), (), (), (), (), ));
-shredh::zoo_case!(c1018, 1018, 'a, ((), (), (), (), (), (), (), (), (), (), (), (), (), (), Write<'a, D1>, (), (), (), (), (), (), (), (), (), (), (), ));
-shredh::zoo_case!(c1026, 1026, 'a, ((), (), (), (), (), (), (), (), (), (), (), (), (), (), (), (), (), (), (), (), (), (), WriteExpect<'a, D3>, (), (), (), ));
-shredh::zoo_case!(c1034, 1034, 'a, ((), (), (), (), (), (), (), (), (), (), (), (), (), (), (), (), (), Write<'a, D2, PanicHandler>, (), (), (), ));
-shredh::zoo_case!(c1042, 1042, 'a, ((), (), (), Read<'a, D0, PanicHandler>, (), (), (), (), (), (), (), (), (), ));
-shredh::zoo_case!(c1050, 1050, 'a, ((), (), (), (), (), (), (), (), (), (), (), (), (), (), Write<'a, D2>, ));
-shredh::zoo_case!(c1058, 1058, 'a, ((), (), (), (), (), (), (), (), (), (), (), (), (), ReadExpect<'a, D2>, (), (), (), (), (), (), (), ));
-shredh::zoo_case!(c1066, 1066, 'a, (WriteExpect<'a, D1>, (), ));
-shredh::zoo_case!(c1074, 1074, 'a, (Write<'a, D2, Hc<D2>>, (), (), (), (), (), (), (), (), (), (), (), (), (), (), (), (), (), (), (), (), ));
-shredh::zoo_case!(c1082, 1082, 'a, ((), (), (), (), ReadExpect<'a, N1>, (), (), (), (), (), (), (), (), (), (), (), (), (), (), (), (), ));
-shredh::zoo_case!(c1090, 1090, 'a, ((), (), (), (), (), (), (), (), PhantomData<[u32]>, (), (), (), (), (), (), (), (), (), (), (), (), ));
-shredh::zoo_case!(c1098, 1098, 'a, ((), (), (), Read<'a, D0>, (), ));
-shredh::zoo_case!(c1106, 1106, 'a, ((), (), (), Write<'a, N1, PanicHandler>, (), (), (), ));
-shredh::zoo_case!(c1114, 1114, 'a, (Write<'a, D3, Hc<D3>>, (), (), (), (), (), (), (), (), (), (), (), (), ));
-shredh::zoo_case!(c1122, 1122, 'a, ((), (), (), (), ReadExpect<'a, N1>, (), (), ));
-shredh::zoo_case!(c1130, 1130, 'a, ((), (), (), (), (), Write<'a, D2, Hc<D2>>, (), (), (), (), (), (), (), (), (), (), (), (), (), (), (), ));
-shredh::zoo_case!(c1138, 1138, 'a, ((), (), (), (), Write<'a, D2, PanicHandler>, (), (), (), ));
-shredh::zoo_case!(c1146, 1146, 'a, ((), (), Option<ReadExpect<'a, N1>>, (), (), (), (), ));
-shredh::zoo_case!(c1154, 1154, 'a, ((), (), (), (), (), Option<Read<'a, D2, PanicHandler>>, (), (), (), (), (), (), (), (), (), (), (), (), (), (), (), (), (), (), (), (), ));
-shredh::zoo_case!(c1162, 1162, 'a, (Write<'a, D1, Hc<D1>>, (), (), (), (), (), (), ));
-shredh::zoo_case!(c1170, 1170, 'a, ((), (), PhantomData<&'a u8>, (), (), (), ));
-shredh::zoo_case!(c1178, 1178, 'a, ((), WriteExpect<'a, N3>, (), (), (), (), (), (), (), (), (), (), (), (), (), (), (), (), (), (), (), ));
-shredh::zoo_case!(c1186, 1186, 'a, ((), (), (), (), Option<Read<'a, D3, PanicHandler>>, (), ));
-shredh::zoo_case!(c1194, 1194, 'a, ((), (), (), (), (), (), (), (), (), (), (), (), (), Read<'a, D0, Hc<D0>>, (), ));
-shredh::zoo_case!(c1202, 1202, 'a, ((), (), (), (), (), (), Option<Read<'a, N2, PanicHandler>>, (), (), (), (), (), (), ));
-shredh::zoo_case!(c1210, 1210, 'a, ((), (), (), (), Read<'a, D0, Hc<D0>>, (), ));
-shredh::zoo_case!(c1218, 1218, 'a, ((), (), (), (), (), Read<'a, D3, DefaultProvider>, (), (), (), (), (), (), (), (), (), (), (), (), (), (), (), (), (), (), (), (), ));
-shredh::zoo_case!(c1226, 1226, 'a, (Write<'a, D3>, (), (), (), (), ));
-shredh::zoo_case!(c1234, 1234, 'a, ((), (), (), (), (), (), Option<Write<'a, D0, PanicHandler>>, (), (), (), (), (), (), (), (), (), (), (), (), (), (), ));
-shredh::zoo_case!(c1242, 1242, 'a, ((), (), (), ReadExpect<'a, N2>, (), ));
-shredh::zoo_case!(c1250, 1250, 'a, ((), (), (), ReadExpect<'a, N1>, (), (), (), (), (), (), (), (), (), (), (), (), (), (), (), (), (), (), (), (), (), (), ));
-shredh::zoo_case!(c1258, 1258, 'a, ((), (), (), (), (), (), (), (), (), (), (), (), (), (), (), (), (), (), (), (), (), (), (), (), (), Read<'a, N3, PanicHandler>, ));
-shredh::zoo_case!(c1266, 1266, 'a, ((), (), Write<'a, D0, DefaultProvider>, (), (), (), (), (), (), (), (), (), (), ));
-shredh::zoo_case!(c1274, 1274, 'a, ((), (), (), (), (), (), (), (), (), (), (), (), (), (), Option<Read<'a, N2>>, ));
-shredh::zoo_case!(c1282, 1282, 'a, ((), (), (), (), (), (), (), Write<'a, D3, Hc<D3>>, (), (), (), (), (), (), (), (), (), (), (), (), (), (), (), (), (), (), ));
-shredh::zoo_case!(c1290, 1290, 'a, ((), (), (), (), (), (), (), (), (), (), (), (), (), (), (), (), (), (), (), (), (), PhantomData<(Write<'a, D1>,)>, (), (), (), (), ));
-shredh::zoo_case!(c1298, 1298, 'a, ((), (), (), (), (), Write<'a, D2, Hc<D2>>, (), (), (), (), ));
-shredh::zoo_case!(c1306, 1306, 'a, ((), (), (), ReadExpect<'a, D1>, (), (), (), (), (), (), (), (), (), (), (), ));
-shredh::zoo_case!(c1314, 1314, 'a, (Read<'a, D3, Hc<D3>>, (), (), (), (), (), (), (), (), (), ));
-shredh::zoo_case!(c1322, 1322, 'a, ((), (), (), (), (), (), (), (), (), Read<'a, D2, Hc<D2>>, (), (), (), ));
-shredh::zoo_case!(c1330, 1330, 'a, ((), (), Read<'a, D3, Hc<D3>>, (), (), (), (), (), (), (), (), (), (), ));
-shredh::zoo_case!(c1338, 1338, 'a, ((), (), (), (), (), (), (), (), (), (), (), (), (), (), (), (), (), PhantomData<&'a u8>, (), (), (), ));
-shredh::zoo_case!(c1346, 1346, 'a, ((), (), (), (), Option<Write<'a, N0, PanicHandler>>, (), (), (), (), (), (), (), (), (), (), (), (), (), (), (), (), ));
-shredh::zoo_case!(c1354, 1354, 'a, ((), (), (), (), (), (), (), (), (), (), Option<Write<'a, N1>>, (), (), (), (), (), (), (), (), (), (), ));
-shredh::zoo_case!(c1362, 1362, 'a, ((), (), (), (), (), (), (), (), (), (), (), (), (), (), (), (), (), (), (), (), Option<Write<'a, D0>>, ));
-shredh::zoo_case!(c1370, 1370, 'a, ((), (), (), (), Read<'a, D1, Hc<D1>>, ));
-shredh::zoo_case!(c1378, 1378, 'a, ((), (), (), (), (), (), (), (), (), (), (), (), (), (), (), (), (), Write<'a, D3, Hc<D3>>, (), (), (), ));
-shredh::zoo_case!(c1386, 1386, 'a, (Write<'a, D0, Hc<D0>>, (), (), (), (), (), (), (), (), (), ));
-shredh::zoo_case!(c1394, 1394, 'a, ((), (), (), Read<'a, D2, Hc<D2>>, (), (), (), (), (), (), ));
-shredh::zoo_case!(c1402, 1402, 'a, (Option<Write<'a, N0, PanicHandler>>, ));
-shredh::zoo_case!(c1410, 1410, 'a, (Write<'a, N1, PanicHandler>, Option<WriteExpect<'a, N2>>, Write<'a, D0>, ));
-shredh::zoo_case!(c1418, 1418, 'a, (Option<WriteExpect<'a, N3>>, Write<'a, D0, DefaultProvider>, Write<'a, D1, PanicHandler>, Option<WriteExpect<'a, N2>>, Write<'a, D5>, ));
-shredh::zoo_case!(c1426, 1426, 'a, (Write<'a, N2, PanicHandler>, Option<WriteExpect<'a, N7>>, Write<'a, D5>, WriteExpect<'a, D0>, Option<Write<'a, N6>>, Write<'a, D1, DefaultProvider>, Write<'a, N4, PanicHandler>, ));
-shredh::zoo_case!(c1434, 1434, 'a, (Write<'a, N11, PanicHandler>, Option<Write<'a, N6>>, Write<'a, D25, DefaultProvider>, Write<'a, D0, PanicHandler>, Option<Write<'a, D3>>, Write<'a, D12, DefaultProvider>, WriteExpect<'a, N2>, Option<Write<'a, D8>>, Write<'a, D9, DefaultProvider>, ));
-shredh::zoo_case!(c1442, 1442, 'a, (Write<'a, D20>, Write<'a, N16, PanicHandler>, Option<WriteExpect<'a, N8>>, Write<'a, D7>, Write<'a, D15, PanicHandler>, Option<Write<'a, D22, PanicHandler>>, Write<'a, D24, DefaultProvider>, Write<'a, D12, PanicHandler>, Option<Write<'a, N19, PanicHandler>>, Write<'a, D2, DefaultProvider>, WriteExpect<'a, N9>, ));
-shredh::zoo_case!(c1450, 1450, 'a, (Write<'a, D22>, WriteExpect<'a, N0>, Option<WriteExpect<'a, N8>>, Write<'a, D16, DefaultProvider>, Write<'a, N19, PanicHandler>, Option<WriteExpect<'a, D17>>, Write<'a, D3, DefaultProvider>, Write<'a, D23, PanicHandler>, Option<WriteExpect<'a, D9>>, Write<'a, D11>, WriteExpect<'a, N15>, Option<Write<'a, N13, PanicHandler>>, Write<'a, D20, DefaultProvider>, ));
-shredh::zoo_case!(c1458, 1458, 'a, (Write<'a, D2>, Write<'a, N10, PanicHandler>, Option<Write<'a, N24>>, Write<'a, D14, DefaultProvider>, Write<'a, D1, PanicHandler>, Option<WriteExpect<'a, N21>>, Write<'a, D18>, Write<'a, N19, PanicHandler>, Option<WriteExpect<'a, N22>>, Write<'a, D12, DefaultProvider>, Write<'a, D16, PanicHandler>, Option<Write<'a, N4>>, Write<'a, D7>, WriteExpect<'a, N8>, Option<Write<'a, N13, PanicHandler>>, ));
-shredh::zoo_case!(c1466, 1466, 'a, (WriteExpect<'a, D7>, Option<WriteExpect<'a, N0>>, Write<'a, D22, DefaultProvider>, Write<'a, D5, PanicHandler>, Option<Write<'a, N10>>, Write<'a, D13>, WriteExpect<'a, N24>, Option<Write<'a, D12, PanicHandler>>, Write<'a, D18, DefaultProvider>, WriteExpect<'a, D21>, Option<Write<'a, D6>>, Write<'a, D15>, Write<'a, N16, PanicHandler>, Option<Write<'a, N1>>, Write<'a, D25, DefaultProvider>, WriteExpect<'a, N14>, Option<Write<'a, N19>>, ));
-shredh::zoo_case!(c1474, 1474, 'a, (Write<'a, D3, PanicHandler>, Option<Write<'a, N4>>, Write<'a, D23, DefaultProvider>, Write<'a, N20, PanicHandler>, Option<WriteExpect<'a, N21>>, Write<'a, D16, DefaultProvider>, WriteExpect<'a, D24>, Option<Write<'a, N19>>, Write<'a, D15>, WriteExpect<'a, D5>, Option<Write<'a, D25, PanicHandler>>, Write<'a, D1, DefaultProvider>, Write<'a, N13, PanicHandler>, Option<Write<'a, D9>>, Write<'a, D14>, Write<'a, N18, PanicHandler>, Option<Write<'a, D7, PanicHandler>>, Write<'a, D12, DefaultProvider>, WriteExpect<'a, N17>, ));
-shredh::zoo_case!(c1482, 1482, 'a, (Write<'a, D25>, WriteExpect<'a, D4>, Option<WriteExpect<'a, D20>>, Write<'a, D2>, Write<'a, N14, PanicHandler>, Option<Write<'a, D23>>, Write<'a, D0>, WriteExpect<'a, D3>, Option<Write<'a, N7>>, Write<'a, D11, DefaultProvider>, WriteExpect<'a, N1>, Option<Write<'a, N16>>, Write<'a, D5, DefaultProvider>, WriteExpect<'a, N22>, Option<Write<'a, D10, PanicHandler>>, Write<'a, D12>, Write<'a, N24, PanicHandler>, Option<WriteExpect<'a, N19>>, Write<'a, D18>, WriteExpect<'a, D17>, Option<Write<'a, D13>>, ));
-shredh::zoo_case!(c1490, 1490, 'a, (Option<Write<'a, N16>>, Write<'a, D15>, Write<'a, N8, PanicHandler>, Option<Write<'a, N9>>, Write<'a, D2, DefaultProvider>, WriteExpect<'a, N7>, Option<Write<'a, N23, PanicHandler>>, Write<'a, D0>, WriteExpect<'a, D13>, Option<Write<'a, N18, PanicHandler>>, Write<'a, D22>, Write<'a, D1, PanicHandler>, Option<Write<'a, D4>>, Write<'a, D12>, WriteExpect<'a, D25>, Option<Write<'a, D19>>, Write<'a, D6, DefaultProvider>, WriteExpect<'a, N10>, Option<WriteExpect<'a, N11>>, Write<'a, D14, DefaultProvider>, WriteExpect<'a, N24>, Option<Write<'a, D5>>, Write<'a, D20>, ));
-shredh::zoo_case!(c1498, 1498, 'a, (WriteExpect<'a, N12>, Option<Write<'a, N2>>, Write<'a, D1>, Write<'a, N21, PanicHandler>, Option<Write<'a, N9, PanicHandler>>, Write<'a, D22, DefaultProvider>, Write<'a, N17, PanicHandler>, Option<WriteExpect<'a, D3>>, Write<'a, D10>, Write<'a, D13, PanicHandler>, Option<Write<'a, N4, PanicHandler>>, Write<'a, D23, DefaultProvider>, Write<'a, D8, PanicHandler>, Option<Write<'a, N0, PanicHandler>>, Write<'a, D14, DefaultProvider>, WriteExpect<'a, N24>, Option<Write<'a, N25, PanicHandler>>, Write<'a, D16, DefaultProvider>, WriteExpect<'a, D19>, Option<Write<'a, N20>>, Write<'a, D7, DefaultProvider>, Write<'a, D15, PanicHandler>, Option<WriteExpect<'a, N11>>, Write<'a, D18, DefaultProvider>, Write<'a, N6, PanicHandler>, ));
-#[derive(SystemData)] pub struct Z1506_0<'a, U0: SystemData<'a>, T0: Resource + ZRes, T1: Resource> { f0: U0, f1: Write<'a, T0, DefaultProvider>, f2: Read<'a, T1, DefaultProvider>, }
-shredh::zoo_case!(c1506, 1506, 'a, Z1506_0<'a, Option<Read<'a, N0>>, D1, D2>);
-#[derive(SystemData)] pub struct Z1514_0<'a, U0: SystemData<'a>, U1: SystemData<'a>> { f0: U0, f1: U1, f2: Read<'a, D2>, }
-shredh::zoo_case!(c1514, 1514, 'a, Z1514_0<'a, Read<'a, D2, DefaultProvider>, (Read<'a, D4>, Write<'a, D3, DefaultProvider>, )>);
-#[derive(SystemData)] pub struct Z1522_1<'a, U0: SystemData<'a>>(Option<WriteExpect<'a, N0>>, U0);
-#[derive(SystemData)] pub struct Z1522_0<'a, T0, T1, U0: SystemData<'a>> where T0: Resource, T1: Debug + Resource + for<'b> Hrtb<'b> { f0: Read<'a, T0, DefaultProvider>, f1: Write<'a, T1, DefaultProvider>, f2: U0, }
-shredh::zoo_case!(c1522, 1522, 'a, Z1522_0<'a, D1, D2, Z1522_1<'a, (Read<'a, D3, DefaultProvider>, )>>);
-shredh::zoo_case!(c1530, 1530, 'a, (Read<'a, D0, DefaultProvider>, Option<ReadExpect<'a, D2>>, Read<'a, D0, DefaultProvider>, ));
-#[derive(SystemData)] pub struct Z1538_0<'a, U0: SystemData<'a>>(Read<'a, D2>, Write<'a, D1, DefaultProvider>, U0);
-shredh::zoo_case!(c1538, 1538, 'a, Z1538_0<'a, (Read<'a, D3>, Write<'a, D0, DefaultProvider>, )>);
-#[derive(SystemData)] pub struct Z1546_0<'a, U0: SystemData<'a>, U1: SystemData<'a>, U2: SystemData<'a>> { pub f0: U0, pub f1: U1, pub f2: PhantomData<str>, pub f3: Read<'a, D25>, pub f4: Write<'a, D22>, pub f5: Read<'a, N1, PanicHandler>, pub f6: Write<'a, D2, PanicHandler>, pub f7: Option<Read<'a, D4>>, pub f8: U2, pub f9: Read<'a, D13, Hc<D17>>, pub f10: Write<'a, D17, Hc<D9>>, pub f11: (), pub f12: PhantomData<(Write<'a, D1>,)>, pub f13: Read<'a, D15, DefaultProvider>, pub f14: Write<'a, D23>, pub f15: Read<'a, N20, PanicHandler>, }
-shredh::zoo_case!(c1546, 1546, 'a, Z1546_0<'a, Write<'a, D21, Hc<D12>>, (), Option<Write<'a, D8>>>);
-#[derive(SystemData)] pub struct Z1554_0<'a, T0: Resource, T1: Resource + ZRes, T2: Debug + Resource + for<'b> Hrtb<'b> + Default> { pub f0: Option<Read<'a, N4>>, pub f1: Option<WriteExpect<'a, T0>>, pub f2: Read<'a, T1, Hc<D24>>, pub f3: Write<'a, D24, Hc<D2>>, pub f4: (), pub f5: PhantomData<T0>, pub f6: Read<'a, T2, DefaultProvider>, pub f7: Write<'a, D10, DefaultProvider>, pub f8: Read<'a, N21, PanicHandler>, pub f9: Write<'a, N3, PanicHandler>, pub f10: Option<Read<'a, D7>>, pub f11: Option<Write<'a, N11, PanicHandler>>, pub f12: Read<'a, D15, Hc<D18>>, pub f13: Write<'a, D18, Hc<D1>>, pub f14: (), pub f15: PhantomData<T0>, pub f16: Read<'a, D25, DefaultProvider>, pub f17: Write<'a, D5, DefaultProvider>, pub f18: Read<'a, D23, PanicHandler>, pub f19: Write<'a, D16, PanicHandler>, pub f20: Option<Read<'a, D6>>, pub f21: Option<Write<'a, N12>>, pub f22: Read<'a, D19, Hc<D20>>, pub f23: Write<'a, D20, Hc<D14>>, pub f24: (), }
-shredh::zoo_case!(c1554, 1554, 'a, Z1554_0<'a, N0, D22, D9>);
-#[derive(SystemData)] pub struct Z1562_0<'a, U0, U1, U2>(pub U0, pub PhantomData<str>, pub Read<'a, D3, DefaultProvider>, pub U1, pub Read<'a, N20, PanicHandler>, pub U2, pub Option<Read<'a, D4, PanicHandler>>, pub Option<WriteExpect<'a, D21>>, pub Read<'a, D7, Hc<D23>>, pub Write<'a, D23, Hc<D24>>, pub (), pub PhantomData<u8>, pub Read<'a, D18>, pub Write<'a, D22, DefaultProvider>, pub Read<'a, N25, PanicHandler>, pub WriteExpect<'a, D6>, pub Option<ReadExpect<'a, N13>>, pub Option<WriteExpect<'a, N0>>, pub Read<'a, D5, Hc<D8>>, pub Write<'a, D8, Hc<D14>>, pub (), pub PhantomData<D0>, pub Read<'a, D2, DefaultProvider>, pub Write<'a, D17>, pub Read<'a, N12, PanicHandler>, pub WriteExpect<'a, N1>) where U0: SystemData<'a>, U1: SystemData<'a>, U2: SystemData<'a>;
-shredh::zoo_case!(c1562, 1562, 'a, Z1562_0<'a, (), Write<'a, D15>, WriteExpect<'a, D11>>);
-shredh::zoo_case!(c1570, 1570, 'a, (Read<'a, D8, Hc<D2>>, Write<'a, D2, Hc<D13>>, (), PhantomData<dyn Send>, Read<'a, D7, DefaultProvider>, Write<'a, D18>, Read<'a, N22, PanicHandler>, Write<'a, D4, PanicHandler>, Option<ReadExpect<'a, D5>>, Option<WriteExpect<'a, D24>>, Read<'a, D15, Hc<D23>>, Write<'a, D23, Hc<D12>>, (), PhantomData<(Write<'a, D1>,)>, Read<'a, D6>, Write<'a, D21>, ReadExpect<'a, D10>, Write<'a, D0, PanicHandler>, Option<Read<'a, D1, PanicHandler>>, Option<Write<'a, N16, PanicHandler>>, Read<'a, D9, Hc<D14>>, Write<'a, D14, Hc<D20>>, (), PhantomData<&'a u8>, ));
-#[derive(SystemData)] pub struct Z1578_0<'a> { pub f0: Read<'a, D25>, pub f1: Write<'a, D16>, pub f2: Read<'a, N4, PanicHandler>, pub f3: Write<'a, D24, PanicHandler>, pub f4: Option<Read<'a, N23, PanicHandler>>, pub f5: Option<Write<'a, N21, PanicHandler>>, pub f6: Read<'a, D1, Hc<D15>>, pub f7: Write<'a, D15, Hc<D6>>, pub f8: (), pub f9: PhantomData<D0>, pub f10: Read<'a, D11, DefaultProvider>, pub f11: Write<'a, D0, DefaultProvider>, pub f12: Read<'a, N12, PanicHandler>, pub f13: Write<'a, N9, PanicHandler>, pub f14: Option<Read<'a, N5, PanicHandler>>, pub f15: Option<Write<'a, D18, PanicHandler>>, pub f16: Read<'a, D22, Hc<D17>>, pub f17: Write<'a, D17, Hc<D7>>, pub f18: (), pub f19: PhantomData<u8>, }
-shredh::zoo_case!(c1578, 1578, 'a, Z1578_0<'a>);
-shredh::zoo_case!(c1586, 1586, 'a, (PhantomData<D0>, Read<'a, D7>, Write<'a, D20, DefaultProvider>, ReadExpect<'a, N23>, WriteExpect<'a, N5>, Option<Read<'a, D25, PanicHandler>>, Option<Write<'a, N3>>, Read<'a, D0, Hc<D12>>, Write<'a, D12, Hc<D6>>, (), ));
-#[derive(SystemData)] pub struct Z1594_1<'a, T0: Debug + Resource> { pub f0: (Read<'a, D3, DefaultProvider>, ), pub f1: Read<'a, T0, PanicHandler>, pub f2: (Write<'a, D0, Hc<D3>>, ), pub f3: Option<Read<'a, D2, PanicHandler>>, }
-#[derive(SystemData)] pub struct Z1594_0<'a>(pub Z1594_1<'a, D0>);
-shredh::zoo_case!(c1594, 1594, 'a, Z1594_0<'a>);
-#[derive(SystemData)] pub struct Z1602_1<'a, U0, U1> where U0: SystemData<'a>, U1: SystemData<'a> { pub f0: Option<Write<'a, D0>>, pub f1: PhantomData<u8>, pub f2: U0, pub f3: U1, }
-#[derive(SystemData)] pub struct Z1602_0<'a, T0: Resource + Default>(pub Z1602_1<'a, Write<'a, D2, DefaultProvider>, Option<Write<'a, D1>>>, pub (Option<Read<'a, D2>>, PhantomData<str>, ), pub Read<'a, T0, DefaultProvider>);
-shredh::zoo_case!(c1602, 1602, 'a, (Z1602_0<'a, D2>, ReadExpect<'a, D0>, ));
-#[derive(SystemData)] pub struct Z1610_1<'a> { f0: Option<Read<'a, D0, PanicHandler>>, f1: Read<'a, D3, Hc<D0>>, f2: Option<Write<'a, D0>>, f3: Read<'a, D3, PanicHandler>, }
-#[derive(SystemData)] pub struct Z1610_2<'a, T0, T1: Resource> where T0: Resource + ZRes { f0: Read<'a, D0, Hc<D3>>, f1: Read<'a, T0, Hc<D3>>, f2: Read<'a, T1, PanicHandler>, f3: Read<'a, D0>, }
-#[derive(SystemData)] pub struct Z1610_0<'a>(pub (Write<'a, D0>, Z1610_1<'a>, (Read<'a, D0, DefaultProvider>, Read<'a, D3>, ), Z1610_2<'a, D0, D0>, ), pub Option<Read<'a, D3, PanicHandler>>);
-shredh::zoo_case!(c1610, 1610, 'a, Z1610_0<'a>);
-#[derive(SystemData)] pub struct Z1618_2<'a> { f0: PhantomData<&'a u8>, f1: Read<'a, D0, DefaultProvider>, }
-#[derive(SystemData)] pub struct Z1618_1<'a, 'x> { pub f0: Read<'a, D0, Hc<D1>>, pub f1: PhantomData<&'x i64>, pub f2: (Read<'a, D1, DefaultProvider>, ), pub f3: Z1618_2<'a>, }
-#[derive(SystemData)] pub struct Z1618_3<'a>(pub Write<'a, D3>);
-#[derive(SystemData)] pub struct Z1618_0<'a> { f0: Z1618_1<'a, 'static>, f1: Z1618_3<'a>, }
-shredh::zoo_case!(c1618, 1618, 'a, Z1618_0<'a>);
-#[derive(SystemData)] pub struct Z1626_1<'a, T0> where T0: Resource { pub f0: Write<'a, T0>, }
-#[derive(SystemData)] pub struct Z1626_0<'a> { pub f0: (Read<'a, D1, PanicHandler>, Z1626_1<'a, D1>, (Option<Write<'a, D2>>, PhantomData<fn() -> N2>, Option<Read<'a, D2>>, Option<Read<'a, D1>>, ), ((), Write<'a, D2>, ), ), pub f1: (), }
-shredh::zoo_case!(c1626, 1626, 'a, Z1626_0<'a>);
-#[derive(SystemData)] pub struct Z1634_1<'a, T0: Debug + Resource, T1: Debug + Resource + for<'b> Hrtb<'b> + Default> { pub f0: (), pub f1: Option<Write<'a, T0>>, pub f2: Option<ReadExpect<'a, D1>>, pub f3: Read<'a, T1>, }
-#[derive(SystemData)] pub struct Z1634_2<'a>((), Write<'a, D1>, Read<'a, D1>, Option<WriteExpect<'a, D1>>);
-#[derive(SystemData)] pub struct Z1634_0<'a, U0>(pub U0, pub Z1634_1<'a, D2, D2>, pub Z1634_2<'a>) where U0: SystemData<'a>;
-shredh::zoo_case!(c1634, 1634, 'a, (Z1634_0<'a, Option<ReadExpect<'a, D2>>>, Option<ReadExpect<'a, D2>>, ));
-#[derive(SystemData)] pub struct Z1642_2<'a, U0: SystemData<'a>, U1: SystemData<'a>> { f0: ReadExpect<'a, D2>, f1: U0, f2: U1, }
-#[derive(SystemData)] pub struct Z1642_3<'a>(pub Option<WriteExpect<'a, D2>>);
-#[derive(SystemData)] pub struct Z1642_1<'a, U0: SystemData<'a>>(U0, Z1642_3<'a>, Write<'a, D2, DefaultProvider>);
-#[derive(SystemData)] pub struct Z1642_5<'a> { f0: Read<'a, D2, PanicHandler>, f1: Read<'a, D2, PanicHandler>, }
-#[derive(SystemData)] pub struct Z1642_4<'a, T0: Resource + ZRes> { pub f0: Option<Write<'a, T0>>, pub f1: Z1642_5<'a>, }
-#[derive(SystemData)] pub struct Z1642_0<'a> { f0: Z1642_1<'a, Z1642_2<'a, Read<'a, D1, Hc<D2>>, Read<'a, D1>>>, f1: Z1642_4<'a, D2>, }
-shredh::zoo_case!(c1642, 1642, 'a, Z1642_0<'a>);
-#[derive(SystemData)] pub struct Z1650_1<'a, U0: SystemData<'a>, U1: SystemData<'a>> { f0: U0, f1: Option<ReadExpect<'a, D1>>, f2: U1, f3: (Write<'a, D0, Hc<D1>>, Option<Write<'a, D0>>, ), }
-#[derive(SystemData)] pub struct Z1650_3<'a>(pub (), pub PhantomData<(Write<'a, D1>,)>);
-#[derive(SystemData)] pub struct Z1650_2<'a> { f0: Read<'a, D1, PanicHandler>, f1: PhantomData<u8>, f2: Write<'a, D0, DefaultProvider>, f3: Z1650_3<'a>, }
-#[derive(SystemData)] pub struct Z1650_4<'a>((Read<'a, D0>, (), ));
-#[derive(SystemData)] pub struct Z1650_0<'a, U0, U1, U2>(pub U0, pub Z1650_2<'a>, pub U1, pub U2) where U0: SystemData<'a>, U1: SystemData<'a>, U2: SystemData<'a>;
-shredh::zoo_case!(c1650, 1650, 'a, Z1650_0<'a, Z1650_1<'a, Read<'a, D1, DefaultProvider>, (Read<'a, D0>, (), )>, Z1650_4<'a>, WriteExpect<'a, D0>>);
-#[derive(SystemData)] pub struct Z1658_1<'a>((Write<'a, D3, Hc<D1>>, ReadExpect<'a, D3>, ), (Read<'a, D3, Hc<D1>>, Option<Read<'a, D3>>, Write<'a, D3, Hc<D1>>, (), ));
-#[derive(SystemData)] pub struct Z1658_3<'a, T0: Resource + ZRes, T1: Resource + ZRes + Default, T2: Debug + Resource + for<'b> Hrtb<'b>> { pub f0: Write<'a, D1>, pub f1: Option<WriteExpect<'a, T0>>, pub f2: Read<'a, T1, DefaultProvider>, pub f3: Read<'a, T2, DefaultProvider>, }
-#[derive(SystemData)] pub struct Z1658_4<'a, T0, T1> where T0: Resource + ZRes, T1: Debug + Resource { pub f0: Option<Read<'a, T0, PanicHandler>>, pub f1: Read<'a, T1, Hc<D3>>, }
-#[derive(SystemData)] pub struct Z1658_5<'a> { f0: Read<'a, D3, Hc<D1>>, f1: ReadExpect<'a, D3>, f2: Read<'a, D1, Hc<D3>>, }
-#[derive(SystemData)] pub struct Z1658_2<'a>(pub Z1658_3<'a, D3, D1, D1>, pub Z1658_4<'a, D1, D1>, pub ((), (), PhantomData<(Write<'a, D1>,)>, ), pub Z1658_5<'a>);
-#[derive(SystemData)] pub struct Z1658_7<'a, U0, U1> where U0: SystemData<'a>, U1: SystemData<'a> { f0: Write<'a, D1, DefaultProvider>, f1: U0, f2: Read<'a, D3, Hc<D1>>, f3: U1, }
-#[derive(SystemData)] pub struct Z1658_6<'a> { pub f0: Z1658_7<'a, (), ()>, pub f1: (), }
-#[derive(SystemData)] pub struct Z1658_0<'a>(Option<WriteExpect<'a, D3>>, Z1658_1<'a>, Z1658_2<'a>, Z1658_6<'a>);
-shredh::zoo_case!(c1658, 1658, 'a, Z1658_0<'a>);
-#[derive(SystemData)] pub struct Z1666_1<'a> { f0: (), f1: Option<Read<'a, D1>>, f2: Read<'a, D1, DefaultProvider>, }
-#[derive(SystemData)] pub struct Z1666_0<'a, T0: Debug + Resource>(Option<Write<'a, T0, PanicHandler>>, Z1666_1<'a>);
-shredh::zoo_case!(c1666, 1666, 'a, Z1666_0<'a, D1>);
-#[derive(SystemData)] pub struct Z1674_0<'a, T0: Debug + Resource> { pub f0: Read<'a, T0, Hc<D3>>, }
-#[derive(SystemData)] pub struct Z1674_1<'a, T0: Resource + ZRes + Default> { f0: Write<'a, T0, DefaultProvider>, }
-shredh::zoo_case!(c1674, 1674, 'a, (Z1674_0<'a, D0>, Z1674_1<'a, D3>, ));
-#[derive(SystemData)] pub struct Z1682_2<'a>(pub Write<'a, D3, Hc<D0>>);
-#[derive(SystemData)] pub struct Z1682_1<'a>(pub (Read<'a, D3, Hc<D0>>, PhantomData<str>, ), pub Z1682_2<'a>);
-#[derive(SystemData)] pub struct Z1682_0<'a, T0, T1> where T0: Debug + Resource, T1: Resource + ZRes { f0: Z1682_1<'a>, f1: Read<'a, T0, Hc<D0>>, f2: Write<'a, T1, PanicHandler>, }
-shredh::zoo_case!(c1682, 1682, 'a, Z1682_0<'a, D3, D0>);
-#[derive(SystemData)] pub struct Z1690_1<'a, T0: Debug + Resource>(Read<'a, D4, Hc<D1>>, WriteExpect<'a, T0>);
-#[derive(SystemData)] pub struct Z1690_0<'a, T0: Debug + Resource>(ReadExpect<'a, T0>, Z1690_1<'a, D4>);
-#[derive(SystemData)] pub struct Z1690_2<'a> { pub f0: Read<'a, D4, Hc<D1>>, }
-#[derive(SystemData)] pub struct Z1690_3<'a, U0, U1> where U0: SystemData<'a>, U1: SystemData<'a> { f0: U0, f1: Read<'a, D2, Hc<D0>>, f2: U1, f3: (), }
-shredh::zoo_case!(c1690, 1690, 'a, (Z1690_0<'a, D4>, (Write<'a, D1>, ReadExpect<'a, D2>, Z1690_2<'a>, Z1690_3<'a, Option<Read<'a, D2, PanicHandler>>, Read<'a, D1, DefaultProvider>>, ), ));
-#[derive(SystemData)] pub struct Z1698_2<'a, U0, U1, U2, T0: Resource> where U0: SystemData<'a>, U1: SystemData<'a>, U2: SystemData<'a> { f0: U0, f1: U1, f2: U2, f3: Option<Read<'a, T0>>, }
-#[derive(SystemData)] pub struct Z1698_3<'a>(PhantomData<(Write<'a, D1>,)>, Option<Read<'a, D2, PanicHandler>>, ());
-#[derive(SystemData)] pub struct Z1698_4<'a, U0> where U0: SystemData<'a> { f0: Option<Write<'a, D1>>, f1: U0, }
-#[derive(SystemData)] pub struct Z1698_1<'a> { pub f0: Z1698_2<'a, Write<'a, D1>, Option<Read<'a, D2, PanicHandler>>, Read<'a, D2, Hc<D0>>, D0>, pub f1: Z1698_3<'a>, pub f2: Z1698_4<'a, Write<'a, D2>>, }
-#[derive(SystemData)] pub struct Z1698_5<'a> { f0: Read<'a, D2, PanicHandler>, }
-#[derive(SystemData)] pub struct Z1698_0<'a, U0: SystemData<'a>>((Option<Write<'a, D1, PanicHandler>>, ), Z1698_1<'a>, (Option<Read<'a, D2>>, Z1698_5<'a>, ), U0);
-shredh::zoo_case!(c1698, 1698, 'a, Z1698_0<'a, Read<'a, D1, DefaultProvider>>);
-#[derive(SystemData)] pub struct Z1706_1<'a, U0, U1> where U0: SystemData<'a>, U1: SystemData<'a> { pub f0: U0, pub f1: (), pub f2: U1, pub f3: Write<'a, D2>, }
-#[derive(SystemData)] pub struct Z1706_2<'a>(Option<ReadExpect<'a, D2>>);
-#[derive(SystemData)] pub struct Z1706_0<'a> { pub f0: ((), Option<ReadExpect<'a, D2>>, ), pub f1: Read<'a, D0>, pub f2: (Z1706_1<'a, Read<'a, D1, Hc<D2>>, Read<'a, D2, DefaultProvider>>, (Write<'a, D1, DefaultProvider>, Option<ReadExpect<'a, D0>>, Write<'a, D0>, ), ), pub f3: Z1706_2<'a>, }
-shredh::zoo_case!(c1706, 1706, 'a, Z1706_0<'a>);
-#[derive(SystemData)] pub struct Z1714_1<'a>((Write<'a, D3>, Option<Read<'a, D3, PanicHandler>>, ));
-#[derive(SystemData)] pub struct Z1714_3<'a>(pub Read<'a, D0>, pub Option<Write<'a, D0>>, pub Read<'a, D3>, pub Write<'a, D2, DefaultProvider>);
-#[derive(SystemData)] pub struct Z1714_2<'a, T0>(Z1714_3<'a>, Option<ReadExpect<'a, T0>>, (Option<ReadExpect<'a, D2>>, Read<'a, D2, Hc<D0>>, )) where T0: Resource;
-#[derive(SystemData)] pub struct Z1714_0<'a>(pub Z1714_1<'a>, pub (), pub ReadExpect<'a, D2>, pub Z1714_2<'a, D3>);
-shredh::zoo_case!(c1714, 1714, 'a, Z1714_0<'a>);
-#[derive(SystemData)] pub struct Z1722_0<'a> { f0: ((), Option<Read<'a, D1>>, Write<'a, D3, PanicHandler>, ), f1: (Write<'a, D3, PanicHandler>, ), }
-#[derive(SystemData)] pub struct Z1722_2<'a> { pub f0: Option<WriteExpect<'a, D1>>, }
-#[derive(SystemData)] pub struct Z1722_1<'a>(Z1722_2<'a>, Read<'a, D3, DefaultProvider>, (Write<'a, D1, PanicHandler>, WriteExpect<'a, D1>, ));
-#[derive(SystemData)] pub struct Z1722_4<'a, T0: Resource + ZRes> { pub f0: Read<'a, D1>, pub f1: Read<'a, T0, Hc<D1>>, }
-#[derive(SystemData)] pub struct Z1722_3<'a>(Read<'a, D1, Hc<D3>>, Read<'a, D3, Hc<D1>>, Write<'a, D1, PanicHandler>, Z1722_4<'a, D3>);
-shredh::zoo_case!(c1722, 1722, 'a, (ReadExpect<'a, D3>, Z1722_0<'a>, Z1722_1<'a>, Z1722_3<'a>, ));
-#[derive(SystemData)] pub struct Z1730_1<'a, T0>(pub Option<WriteExpect<'a, T0>>) where T0: Debug + Resource + for<'b> Hrtb<'b>;
-#[derive(SystemData)] pub struct Z1730_2<'a, T0, T1, T2>(pub Option<Write<'a, T0>>, pub Option<Write<'a, T1>>, pub (), pub Read<'a, T2>) where T0: Debug + Resource, T1: Resource + ZRes, T2: Debug + Resource + Default;
-#[derive(SystemData)] pub struct Z1730_0<'a, U0: SystemData<'a>, U1: SystemData<'a>> { f0: Z1730_1<'a, N3>, f1: U0, f2: U1, }
-shredh::zoo_case!(c1730, 1730, 'a, Z1730_0<'a, Z1730_2<'a, N3, D2, D2>, ()>);
-#[derive(SystemData)] pub struct Z1738_1<'a, T0> where T0: Debug + Resource + Default { pub f0: Read<'a, T0>, pub f1: Read<'a, D3, Hc<D2>>, }
-#[derive(SystemData)] pub struct Z1738_0<'a>(pub (Read<'a, D2, PanicHandler>, (Read<'a, D2>, Read<'a, D0, DefaultProvider>, Write<'a, D1>, ), ((), Option<Write<'a, D2, PanicHandler>>, Option<Write<'a, D2, PanicHandler>>, Option<WriteExpect<'a, D2>>, ), Z1738_1<'a, D2>, ));
-shredh::zoo_case!(c1738, 1738, 'a, Z1738_0<'a>);
-#[derive(SystemData)] pub struct Z1746_1<'a, T0, T1>(pub ReadExpect<'a, T0>, pub Write<'a, T1, DefaultProvider>) where T0: Resource, T1: Debug + Resource;
-#[derive(SystemData)] pub struct Z1746_0<'a>(pub (Read<'a, D4, PanicHandler>, (), ), pub Z1746_1<'a, D4, D1>, pub Read<'a, D3, PanicHandler>);
-shredh::zoo_case!(c1746, 1746, 'a, Z1746_0<'a>);
-#[derive(SystemData)] pub struct Z1754_2<'a, T0: Resource> { f0: Read<'a, D2, DefaultProvider>, f1: WriteExpect<'a, D3>, f2: Write<'a, T0, Hc<D2>>, }
-#[derive(SystemData)] pub struct Z1754_3<'a, T0: Resource, U0: SystemData<'a>, T1: Debug + Resource> { f0: Read<'a, T0, Hc<D3>>, f1: U0, f2: Read<'a, D0>, f3: Write<'a, T1, Hc<D3>>, }
-#[derive(SystemData)] pub struct Z1754_1<'a>(Option<Write<'a, D2>>, Z1754_2<'a, D3>, Read<'a, D3, Hc<D2>>, Z1754_3<'a, D2, Option<WriteExpect<'a, D3>>, D2>);
-#[derive(SystemData)] pub struct Z1754_0<'a> { f0: Z1754_1<'a>, }
-shredh::zoo_case!(c1754, 1754, 'a, Z1754_0<'a>);
-#[derive(SystemData)] pub struct Z1762_2<'a, 'x, T0>((), Write<'a, T0>, PhantomData<&'x i64>, PhantomData<str>) where T0: Resource;
-#[derive(SystemData)] pub struct Z1762_3<'a>(Option<Write<'a, D2>>, Option<Read<'a, D2>>, Write<'a, D3>, ReadExpect<'a, D2>);
-#[derive(SystemData)] pub struct Z1762_1<'a> { pub f0: Z1762_2<'a, 'a, D0>, pub f1: (Read<'a, D0, Hc<D3>>, Read<'a, D2, Hc<D0>>, ), pub f2: Read<'a, D2, Hc<D0>>, pub f3: Z1762_3<'a>, }
-#[derive(SystemData)] pub struct Z1762_5<'a> { f0: Write<'a, D0>, f1: Option<ReadExpect<'a, D2>>, f2: Option<Write<'a, D2, PanicHandler>>, }
-#[derive(SystemData)] pub struct Z1762_4<'a, T0>(pub Z1762_5<'a>, pub Option<ReadExpect<'a, T0>>) where T0: Debug + Resource + for<'b> Hrtb<'b>;
-#[derive(SystemData)] pub struct Z1762_0<'a> { pub f0: Option<ReadExpect<'a, D2>>, pub f1: Write<'a, D3>, pub f2: Z1762_1<'a>, pub f3: Z1762_4<'a, D3>, }
-shredh::zoo_case!(c1762, 1762, 'a, Z1762_0<'a>);
-#[derive(SystemData)] pub struct Z1770_1<'a, T0, T1>(pub Read<'a, D0>, pub Write<'a, T0, PanicHandler>, pub Read<'a, T1, DefaultProvider>) where T0: Resource + ZRes, T1: Resource + ZRes + Default;
-#[derive(SystemData)] pub struct Z1770_2<'a> { f0: Read<'a, D2, DefaultProvider>, f1: Option<ReadExpect<'a, D0>>, f2: ReadExpect<'a, D0>, }
-#[derive(SystemData)] pub struct Z1770_0<'a, U0, U1> where U0: SystemData<'a>, U1: SystemData<'a> { f0: U0, f1: U1, f2: Option<Write<'a, D2>>, }
-shredh::zoo_case!(c1770, 1770, 'a, (Z1770_0<'a, Z1770_1<'a, N3, D0>, Z1770_2<'a>>, ));
-#[derive(SystemData)] pub struct Z1778_2<'a, 'x>(PhantomData<&'x i64>, Read<'a, D0, PanicHandler>);
-#[derive(SystemData)] pub struct Z1778_1<'a, T0: Debug + Resource + for<'b> Hrtb<'b>, T1: Debug + Resource, T2: Resource + ZRes>(Read<'a, T0, PanicHandler>, Z1778_2<'a, 'a>, Write<'a, T1, Hc<D1>>, Read<'a, T2, DefaultProvider>);
-#[derive(SystemData)] pub struct Z1778_0<'a> { pub f0: Z1778_1<'a, N3, D4, D0>, pub f1: (Read<'a, D4>, ), }
-shredh::zoo_case!(c1778, 1778, 'a, Z1778_0<'a>);
-#[derive(SystemData)] pub struct Z1786_1<'a>(PhantomData<&'a u8>);
-#[derive(SystemData)] pub struct Z1786_0<'a, U0, U1> where U0: SystemData<'a>, U1: SystemData<'a> { f0: U0, f1: Write<'a, D1, PanicHandler>, f2: U1, f3: (Read<'a, D1, DefaultProvider>, ), }
-shredh::zoo_case!(c1786, 1786, 'a, (Option<Read<'a, D3, PanicHandler>>, Write<'a, D1, Hc<D3>>, ((Read<'a, D1, Hc<D3>>, ), ), Z1786_0<'a, ((), Option<Write<'a, D1>>, Read<'a, D1, Hc<D3>>, Write<'a, D3, PanicHandler>, ), Z1786_1<'a>>, ));
-#[derive(SystemData)] pub struct Z1794_0<'a, T0: Resource + ZRes> { f0: Option<Read<'a, T0, PanicHandler>>, }
-shredh::zoo_case!(c1794, 1794, 'a, ((Read<'a, N3, PanicHandler>, Read<'a, D0, DefaultProvider>, (), ), Option<ReadExpect<'a, D2>>, Z1794_0<'a, D0>, ));
-#[derive(SystemData)] pub struct Z1802_1<'a, U0: SystemData<'a>, U1: SystemData<'a>, U2: SystemData<'a>>(pub U0, pub U1, pub U2, pub Read<'a, D2, DefaultProvider>);
-#[derive(SystemData)] pub struct Z1802_2<'a, T0: Resource + ZRes + Default, T1: Debug + Resource + for<'b> Hrtb<'b>> { f0: Write<'a, T0, DefaultProvider>, f1: Write<'a, T1, Hc<D2>>, f2: Read<'a, D2, Hc<D0>>, }
-#[derive(SystemData)] pub struct Z1802_0<'a, U0: SystemData<'a>> { f0: U0, f1: Z1802_2<'a, D0, D0>, }
-shredh::zoo_case!(c1802, 1802, 'a, (Write<'a, D0, Hc<D2>>, Z1802_0<'a, Z1802_1<'a, Read<'a, D0, Hc<D2>>, Read<'a, D0, DefaultProvider>, PhantomData<[u32]>>>, ));
-#[derive(SystemData)] pub struct Z1810_1<'a, U0: SystemData<'a>>(U0, Read<'a, D1, DefaultProvider>, Read<'a, D3, DefaultProvider>);
-#[derive(SystemData)] pub struct Z1810_0<'a>((PhantomData<[u32]>, Read<'a, D2, DefaultProvider>, Read<'a, D3, DefaultProvider>, Option<Write<'a, D1>>, ), Read<'a, D2, PanicHandler>, Z1810_1<'a, Option<Write<'a, D2>>>, (Read<'a, D2, DefaultProvider>, ));
-shredh::zoo_case!(c1810, 1810, 'a, (((Read<'a, D1, PanicHandler>, Option<Read<'a, D3>>, ), ), Z1810_0<'a>, (Write<'a, D3>, ), ));
-#[derive(SystemData)] pub struct Z1818_2<'a, T0: Debug + Resource + for<'b> Hrtb<'b>, T1: Resource + ZRes>(Option<Write<'a, T0>>, ReadExpect<'a, D0>, Read<'a, T1>);
-#[derive(SystemData)] pub struct Z1818_1<'a, U0: SystemData<'a>> { f0: U0, f1: Option<ReadExpect<'a, D1>>, f2: (Read<'a, D0, PanicHandler>, Option<ReadExpect<'a, D3>>, ), }
-#[derive(SystemData)] pub struct Z1818_3<'a, T0: Resource, U0: SystemData<'a>, U1: SystemData<'a>, U2>(pub Option<Write<'a, T0>>, pub U0, pub U1, pub U2) where U2: SystemData<'a>;
-#[derive(SystemData)] pub struct Z1818_0<'a> { pub f0: Write<'a, D2, DefaultProvider>, pub f1: Z1818_1<'a, Z1818_2<'a, D3, D1>>, pub f2: (Z1818_3<'a, D1, Option<Write<'a, D2>>, Option<Read<'a, D3, PanicHandler>>, Option<ReadExpect<'a, D0>>>, Read<'a, D3, Hc<D0>>, ), }
-shredh::zoo_case!(c1818, 1818, 'a, Z1818_0<'a>);
-#[derive(SystemData)] pub struct Z1826_1<'a, U0>(pub Option<WriteExpect<'a, D3>>, pub U0, pub PhantomData<fn() -> N2>, pub Option<WriteExpect<'a, N0>>) where U0: SystemData<'a>;
-#[derive(SystemData)] pub struct Z1826_0<'a>(Z1826_1<'a, Read<'a, D3, Hc<D2>>>);
-shredh::zoo_case!(c1826, 1826, 'a, Z1826_0<'a>);
-#[derive(SystemData)] pub struct Z1834_1<'a>(Read<'a, D2, DefaultProvider>);
-#[derive(SystemData)] pub struct Z1834_0<'a> { f0: (Read<'a, D3, DefaultProvider>, Z1834_1<'a>, (Write<'a, D4, DefaultProvider>, ), ), }
-shredh::zoo_case!(c1834, 1834, 'a, Z1834_0<'a>);
-#[derive(SystemData)] pub struct Z1842_0<'a>(pub Write<'a, D4>, pub Write<'a, D3, DefaultProvider>, pub Read<'a, D4, DefaultProvider>, pub Option<Read<'a, D0, PanicHandler>>);
-#[derive(SystemData)] pub struct Z1842_1<'a> { pub f0: Write<'a, D1, Hc<D4>>, pub f1: Write<'a, D3, Hc<D4>>, }
-shredh::zoo_case!(c1842, 1842, 'a, (Z1842_0<'a>, (Write<'a, D3, DefaultProvider>, Write<'a, D4, PanicHandler>, Read<'a, D3, Hc<D4>>, ), Z1842_1<'a>, Read<'a, D0>, ));
-#[derive(SystemData)] pub struct Z1850_0<'a, T0> where T0: Debug + Resource + for<'b> Hrtb<'b> { pub f0: Read<'a, D0>, pub f1: ReadExpect<'a, T0>, }
-shredh::zoo_case!(c1850, 1850, 'a, ((Option<WriteExpect<'a, D3>>, WriteExpect<'a, D0>, ), Z1850_0<'a, D3>, (Read<'a, D0>, Read<'a, D3, PanicHandler>, ), ));
-#[derive(SystemData)] pub struct Z1858_1<'a, U0: SystemData<'a>, U1: SystemData<'a>> { pub f0: U0, pub f1: Read<'a, D3, DefaultProvider>, pub f2: U1, pub f3: (), }
-#[derive(SystemData)] pub struct Z1858_2<'a> { f0: Option<Read<'a, D3>>, }
-#[derive(SystemData)] pub struct Z1858_3<'a, T0: Debug + Resource + for<'b> Hrtb<'b>>(Read<'a, T0, DefaultProvider>, Option<Write<'a, D3>>, ());
-#[derive(SystemData)] pub struct Z1858_0<'a>(pub (Read<'a, D3, Hc<D1>>, ), pub Z1858_1<'a, Option<Read<'a, D3, PanicHandler>>, ()>, pub Z1858_2<'a>, pub Z1858_3<'a, D1>);
-shredh::zoo_case!(c1858, 1858, 'a, Z1858_0<'a>);
-#[derive(SystemData)] pub struct Z1866_1<'a>(Read<'a, D2, DefaultProvider>, Write<'a, D3>, Read<'a, D3, PanicHandler>, Option<Write<'a, D3>>);
-#[derive(SystemData)] pub struct Z1866_0<'a, U0: SystemData<'a>>(pub U0, pub (PhantomData<dyn Send>, Write<'a, D2, DefaultProvider>, Write<'a, D3>, ));
-shredh::zoo_case!(c1866, 1866, 'a, Z1866_0<'a, Z1866_1<'a>>);
-#[derive(SystemData)] pub struct Z1874_0<'a>(pub Read<'a, D2, DefaultProvider>, pub PhantomData<fn() -> N2>, pub PhantomData<fn() -> N2>, pub PhantomData<u8>, pub (), pub Read<'a, D3, DefaultProvider>, pub Read<'a, D3, DefaultProvider>, pub Read<'a, D1, DefaultProvider>, pub ReadExpect<'a, D2>, pub Read<'a, D1>, pub (), pub Read<'a, D2, DefaultProvider>, pub Read<'a, D3>, pub Option<Read<'a, D3>>, pub (), pub (), pub PhantomData<str>, pub Read<'a, D1, DefaultProvider>, pub (), pub Option<Read<'a, D2>>, pub PhantomData<[u32]>);
-shredh::zoo_case!(c1874, 1874, 'a, Z1874_0<'a>);
-#[derive(SystemData)] pub struct Z1882_0<'a, U0: SystemData<'a>, U1: SystemData<'a>, U2: SystemData<'a>> { pub f0: U0, pub f1: U1, pub f2: (), pub f3: Option<ReadExpect<'a, N2>>, pub f4: Option<ReadExpect<'a, N1>>, pub f5: U2, pub f6: ReadExpect<'a, N2>, pub f7: Read<'a, D0>, pub f8: Read<'a, N1, PanicHandler>, pub f9: PhantomData<str>, }
-shredh::zoo_case!(c1882, 1882, 'a, Z1882_0<'a, ReadExpect<'a, N2>, Option<Read<'a, D0, PanicHandler>>, Option<Read<'a, N1, PanicHandler>>>);
-#[derive(SystemData)] pub struct Z1890_0<'a, U0, U1, U2> where U0: SystemData<'a>, U1: SystemData<'a>, U2: SystemData<'a> { f0: U0, f1: U1, f2: Read<'a, D5, DefaultProvider>, f3: U2, f4: (), f5: PhantomData<str>, f6: Read<'a, D0, Hc<D6>>, f7: ReadExpect<'a, D1>, }
-shredh::zoo_case!(c1890, 1890, 'a, Z1890_0<'a, Read<'a, N3, PanicHandler>, PhantomData<D0>, Read<'a, N4, PanicHandler>>);
-#[derive(SystemData)] pub struct Z1898_0<'a>(pub Write<'a, D2, DefaultProvider>, pub Write<'a, D1, Hc<D3>>);
-#[derive(SystemData)] pub struct Z1898_1<'a, T0, T1>(Read<'a, T0, Hc<D3>>, Read<'a, T1, Hc<D1>>) where T0: Debug + Resource + for<'b> Hrtb<'b>, T1: Debug + Resource + for<'b> Hrtb<'b>;
-#[derive(SystemData)] pub struct Z1898_2<'a>(ReadExpect<'a, D3>);
-shredh::zoo_case!(c1898, 1898, 'a, (Z1898_0<'a>, Option<Write<'a, D3>>, (), Read<'a, D2>, Z1898_1<'a, D2, D3>, Z1898_2<'a>, Write<'a, D1, DefaultProvider>, PhantomData<[u32]>, Option<WriteExpect<'a, D1>>, ));
-shredh::zoo_case!(c1906, 1906, 'a, (PhantomData<(Write<'a, D1>,)>, Write<'a, N22, PanicHandler>, Write<'a, D24, PanicHandler>, PhantomData<[u32]>, Write<'a, D13, DefaultProvider>, Option<Read<'a, N16, PanicHandler>>, Write<'a, D18, DefaultProvider>, Option<Read<'a, N14>>, Write<'a, D9, DefaultProvider>, ));
-#[derive(SystemData)] pub struct Z1914_0<'a, 'x>(pub Option<Write<'a, D2, PanicHandler>>, pub PhantomData<&'x i64>, pub ReadExpect<'a, N1>, pub Write<'a, D3, DefaultProvider>);
-shredh::zoo_case!(c1914, 1914, 'a, Z1914_0<'a, 'static>);
-shredh::zoo_case!(c1922, 1922, 'a, (ReadExpect<'a, D0>, Read<'a, D0>, PhantomData<fn() -> N2>, PhantomData<u8>, Read<'a, N3, PanicHandler>, Read<'a, D0>, (), (), PhantomData<u8>, Option<ReadExpect<'a, N3>>, ReadExpect<'a, D0>, Option<ReadExpect<'a, N1>>, Read<'a, N3, PanicHandler>, Option<Read<'a, D0, PanicHandler>>, Option<ReadExpect<'a, N1>>, Option<ReadExpect<'a, D0>>, ));
-shredh::zoo_case!(c1930, 1930, 'a, (Read<'a, D1>, WriteExpect<'a, D1>, Option<WriteExpect<'a, D3>>, Option<Read<'a, D1, PanicHandler>>, Read<'a, D3, DefaultProvider>, WriteExpect<'a, D1>, Read<'a, D0>, ReadExpect<'a, D3>, Option<Write<'a, D0, PanicHandler>>, ReadExpect<'a, D3>, Write<'a, D0, DefaultProvider>, (), Write<'a, D0>, Read<'a, D1, Hc<D4>>, Write<'a, D0, Hc<D4>>, PhantomData<fn() -> N2>, ReadExpect<'a, D1>, Write<'a, D0, DefaultProvider>, Read<'a, D0, Hc<D3>>, Write<'a, D1, PanicHandler>, WriteExpect<'a, D0>, ));
-#[derive(SystemData)] pub struct Z1938_0<'a, T0, T1, T2>(pub Read<'a, D0, DefaultProvider>, pub Option<Read<'a, T0>>, pub Read<'a, T1, PanicHandler>, pub Read<'a, T2, DefaultProvider>, pub (), pub (), pub PhantomData<u8>, pub ()) where T0: Resource, T1: Debug + Resource + for<'b> Hrtb<'b>, T2: Debug + Resource + for<'b> Hrtb<'b> + Default;
-shredh::zoo_case!(c1938, 1938, 'a, Z1938_0<'a, D1, N2, D1>);
-shredh::zoo_case!(c1946, 1946, 'a, (Read<'a, D3>, PhantomData<[u32]>, Option<Read<'a, D3>>, Option<Read<'a, N1>>, Option<Read<'a, D0>>, (), ReadExpect<'a, D0>, PhantomData<fn() -> N2>, Option<ReadExpect<'a, N1>>, (), (), PhantomData<fn() -> N2>, (), ));
-#[derive(SystemData)] pub struct Z1954_0<'a, U0: SystemData<'a>, U1: SystemData<'a>, U2, T0: Resource> where U2: SystemData<'a> { pub f0: U0, pub f1: U1, pub f2: U2, pub f3: Read<'a, T0, PanicHandler>, }
-shredh::zoo_case!(c1954, 1954, 'a, Z1954_0<'a, Option<Write<'a, D3, PanicHandler>>, Read<'a, D0, Hc<D3>>, PhantomData<D0>, N2>);
-#[derive(SystemData)] pub struct Z1962_0<'a>(Read<'a, D23>, Option<Write<'a, N12>>, Write<'a, N1, PanicHandler>, Option<Read<'a, N0, PanicHandler>>, Read<'a, D20, DefaultProvider>, Read<'a, D16, DefaultProvider>, (), (), Option<Write<'a, D15>>, PhantomData<str>, Read<'a, D14>, PhantomData<D0>, Write<'a, D13, Hc<D15>>, WriteExpect<'a, D8>, (), (), Write<'a, D19>, Read<'a, D18, DefaultProvider>, Write<'a, D5>, Write<'a, D3>, (), Write<'a, D7, Hc<D5>>, Write<'a, D21, DefaultProvider>, PhantomData<dyn Send>);
-shredh::zoo_case!(c1962, 1962, 'a, Z1962_0<'a>);
-#[derive(SystemData)] pub struct Z1970_0<'a, 'x> { pub f0: Read<'a, D6>, pub f1: PhantomData<&'x i64>, pub f2: Write<'a, D2, PanicHandler>, pub f3: Option<Read<'a, D0, PanicHandler>>, pub f4: (), pub f5: ReadExpect<'a, D6>, pub f6: Write<'a, D2, Hc<D4>>, pub f7: Option<Write<'a, D3>>, pub f8: WriteExpect<'a, D4>, pub f9: Option<Write<'a, D6>>, pub f10: Write<'a, D0>, pub f11: Read<'a, D2, PanicHandler>, pub f12: Option<Read<'a, D6>>, pub f13: Write<'a, D5>, pub f14: Read<'a, D0, Hc<D5>>, pub f15: Read<'a, D2, Hc<D6>>, pub f16: ReadExpect<'a, D3>, pub f17: Write<'a, D3>, pub f18: (), }
-shredh::zoo_case!(c1970, 1970, 'a, Z1970_0<'a, 'static>);
-#[derive(SystemData)] pub struct Z1978_1<'a, U0, T0: Debug + Resource + for<'b> Hrtb<'b>> where U0: SystemData<'a> { pub f0: U0, pub f1: ReadExpect<'a, T0>, }
-#[derive(SystemData)] pub struct Z1978_2<'a>(pub Read<'a, D3, DefaultProvider>, pub Write<'a, D3, Hc<D1>>);
-#[derive(SystemData)] pub struct Z1978_3<'a, 'x, T0: Debug + Resource, T1> where T1: Debug + Resource + for<'b> Hrtb<'b> { pub f0: PhantomData<&'x i64>, pub f1: Read<'a, T0>, pub f2: Read<'a, T1>, }
-#[derive(SystemData)] pub struct Z1978_0<'a, U0, U1, U2> where U0: SystemData<'a>, U1: SystemData<'a>, U2: SystemData<'a> { f0: U0, f1: Write<'a, D3, PanicHandler>, f2: U1, f3: WriteExpect<'a, D1>, f4: U2, f5: WriteExpect<'a, D0>, f6: (Write<'a, D3, PanicHandler>, ), f7: Z1978_2<'a>, f8: Read<'a, D3, Hc<D0>>, f9: Write<'a, D3, Hc<D1>>, f10: Option<ReadExpect<'a, D3>>, f11: Z1978_3<'a, 'a, D3, D0>, f12: PhantomData<D0>, f13: Read<'a, D1, Hc<D3>>, }
-shredh::zoo_case!(c1978, 1978, 'a, Z1978_0<'a, Z1978_1<'a, ReadExpect<'a, D0>, D1>, Option<Write<'a, D1>>, Option<Write<'a, D1>>>);
-#[derive(SystemData)] pub struct Z1986_0<'a, U0: SystemData<'a>, T0: Resource, U1: SystemData<'a>, U2, T1: Resource, T2: Resource + ZRes> where U2: SystemData<'a> { f0: Read<'a, D11, PanicHandler>, f1: U0, f2: ReadExpect<'a, T0>, f3: U1, f4: U2, f5: WriteExpect<'a, N25>, f6: WriteExpect<'a, T1>, f7: Write<'a, T2, PanicHandler>, f8: Read<'a, D22, DefaultProvider>, f9: WriteExpect<'a, N5>, f10: (), f11: (), }
-shredh::zoo_case!(c1986, 1986, 'a, Z1986_0<'a, Write<'a, N0, PanicHandler>, D16, Read<'a, D17, PanicHandler>, Option<Write<'a, N6, PanicHandler>>, D23, N10>);
-#[derive(SystemData)] pub struct Z1994_0<'a, 'x, T0: Debug + Resource, T1, T2: Resource> where T1: Resource { f0: Option<Read<'a, D22, PanicHandler>>, f1: Write<'a, D20, Hc<D16>>, f2: Read<'a, D10, Hc<D20>>, f3: Write<'a, T0, Hc<D16>>, f4: Option<ReadExpect<'a, N0>>, f5: PhantomData<&'x i64>, f6: PhantomData<dyn Send>, f7: Option<ReadExpect<'a, N7>>, f8: PhantomData<T0>, f9: Read<'a, T1, Hc<D14>>, f10: Write<'a, T2, Hc<D1>>, f11: (), f12: Option<Read<'a, D4>>, f13: PhantomData<[u32]>, f14: PhantomData<T0>, f15: Read<'a, D17, DefaultProvider>, f16: Option<Read<'a, D5>>, f17: Write<'a, D1>, f18: Option<Write<'a, N12, PanicHandler>>, f19: WriteExpect<'a, D14>, f20: WriteExpect<'a, D8>, f21: Write<'a, D2, DefaultProvider>, f22: Write<'a, N18, PanicHandler>, f23: Write<'a, D19, DefaultProvider>, }
-shredh::zoo_case!(c1994, 1994, 'a, Z1994_0<'a, 'a, D11, D16, D25>);
-#[derive(SystemData)] pub struct Z2002_0<'a>(Read<'a, D5>, Option<Write<'a, D2>>, Option<ReadExpect<'a, D0>>, Read<'a, N1, PanicHandler>, (), Write<'a, D3, Hc<D4>>);
-shredh::zoo_case!(c2002, 2002, 'a, Z2002_0<'a>);
-#[derive(SystemData)] pub struct Z2010_0<'a, 'x>(Write<'a, D5>, Write<'a, D6, Hc<D3>>, Read<'a, D5, DefaultProvider>, Write<'a, D5, DefaultProvider>, Write<'a, D2, Hc<D0>>, Write<'a, D0>, PhantomData<&'x i64>, PhantomData<[u32]>, Read<'a, D5, Hc<D0>>, Write<'a, D5, Hc<D3>>, Read<'a, D6, PanicHandler>, (), PhantomData<str>, (), Write<'a, D2, Hc<D4>>, Option<Write<'a, D0>>, Write<'a, D0, Hc<D2>>, PhantomData<str>, Write<'a, D5, PanicHandler>, Option<ReadExpect<'a, D6>>, (), ReadExpect<'a, D0>, Read<'a, D2, Hc<D3>>);
-shredh::zoo_case!(c2010, 2010, 'a, Z2010_0<'a, 'a>);
-#[derive(SystemData)] pub struct Z2018_0<'a> { pub f0: Option<Read<'a, N1, PanicHandler>>, pub f1: Read<'a, N1, PanicHandler>, pub f2: Option<Read<'a, D0>>, pub f3: (), pub f4: Option<ReadExpect<'a, D0>>, pub f5: PhantomData<fn() -> N2>, pub f6: Read<'a, D2, DefaultProvider>, pub f7: PhantomData<[u32]>, pub f8: ReadExpect<'a, D5>, }
-shredh::zoo_case!(c2018, 2018, 'a, Z2018_0<'a>);
-shredh::zoo_case!(c2026, 2026, 'a, (Write<'a, D1>, PhantomData<u8>, Read<'a, D0>, PhantomData<str>, Write<'a, D5, Hc<D6>>, Option<WriteExpect<'a, D6>>, PhantomData<str>, ));
-#[derive(SystemData)] pub struct Z2034_0<'a, U0, U1, U2>(WriteExpect<'a, D5>, Write<'a, D6, PanicHandler>, U0, U1, U2, PhantomData<D0>, Option<Write<'a, D4>>, Read<'a, D0, PanicHandler>, Read<'a, D1, PanicHandler>, Read<'a, D1, Hc<D6>>, Option<Write<'a, D1>>, (), (), Option<Write<'a, D6, PanicHandler>>, ReadExpect<'a, D2>, (), Write<'a, D2, Hc<D5>>, Write<'a, D5, Hc<D4>>, Read<'a, D1, Hc<D4>>, Write<'a, D5, Hc<D0>>, (), Option<Write<'a, D6>>, Write<'a, D1, PanicHandler>, Read<'a, D2, Hc<D6>>) where U0: SystemData<'a>, U1: SystemData<'a>, U2: SystemData<'a>;
-shredh::zoo_case!(c2034, 2034, 'a, Z2034_0<'a, Read<'a, D4, DefaultProvider>, Option<Read<'a, D2>>, Read<'a, D4, DefaultProvider>>);
-shredh::zoo_case!(c2042, 2042, 'a, (Read<'a, D0>, (), ReadExpect<'a, D1>, Read<'a, D1, PanicHandler>, Read<'a, D1, PanicHandler>, Read<'a, D1>, Read<'a, D1>, PhantomData<[u32]>, Option<Read<'a, D0>>, PhantomData<&'a u8>, PhantomData<[u32]>, PhantomData<dyn Send>, Read<'a, D0, PanicHandler>, ReadExpect<'a, D0>, Option<Read<'a, D1, PanicHandler>>, ReadExpect<'a, D0>, Read<'a, D1>, (), Option<Read<'a, D1, PanicHandler>>, Option<ReadExpect<'a, D0>>, (), (), Read<'a, D1, DefaultProvider>, PhantomData<(Write<'a, D1>,)>, ));
-#[derive(SystemData)] pub struct Z2050_0<'a>(PhantomData<str>, Read<'a, D3, DefaultProvider>, (), Read<'a, D3, DefaultProvider>, Read<'a, N2, PanicHandler>, PhantomData<dyn Send>, ReadExpect<'a, D3>, Read<'a, D3>, Read<'a, N2, PanicHandler>, PhantomData<str>, Read<'a, D3, PanicHandler>, PhantomData<dyn Send>, Read<'a, D3, DefaultProvider>, Option<ReadExpect<'a, D3>>, (), Read<'a, D3, PanicHandler>, Option<Read<'a, N2>>, ReadExpect<'a, D3>, Option<Read<'a, D3, PanicHandler>>, Read<'a, D3, DefaultProvider>, PhantomData<fn() -> N2>, PhantomData<str>, Read<'a, D3, PanicHandler>, ReadExpect<'a, N2>);
-shredh::zoo_case!(c2050, 2050, 'a, Z2050_0<'a>);
-#[derive(SystemData)] pub struct Z2058_0<'a, U0: SystemData<'a>, U1: SystemData<'a>>(PhantomData<dyn Send>, U0, (), U1, Read<'a, D4, DefaultProvider>);
-shredh::zoo_case!(c2058, 2058, 'a, Z2058_0<'a, Write<'a, D4, Hc<D3>>, Read<'a, D6, Hc<D1>>>);
-#[derive(SystemData)] pub struct Z2066_1<'a> { f0: ReadExpect<'a, D3>, f1: Write<'a, D0, Hc<D3>>, }
-#[derive(SystemData)] pub struct Z2066_0<'a, T0, T1, T2> where T0: Debug + Resource, T1: Debug + Resource + for<'b> Hrtb<'b>, T2: Debug + Resource + Default { pub f0: Read<'a, T0, Hc<D3>>, pub f1: Z2066_1<'a>, pub f2: Read<'a, T1, Hc<D3>>, pub f3: Read<'a, D3, Hc<D2>>, pub f4: (Write<'a, D3>, ), pub f5: PhantomData<T0>, pub f6: (Write<'a, D3, DefaultProvider>, Read<'a, D0, Hc<D3>>, Read<'a, D3, Hc<D1>>, ), pub f7: PhantomData<T0>, pub f8: (), pub f9: Read<'a, T2>, pub f10: (Read<'a, D2, DefaultProvider>, ), pub f11: Write<'a, D3, DefaultProvider>, pub f12: WriteExpect<'a, D2>, pub f13: Option<WriteExpect<'a, D2>>, pub f14: PhantomData<T0>, }
-shredh::zoo_case!(c2066, 2066, 'a, Z2066_0<'a, D0, D1, D0>);
-#[derive(SystemData)] pub struct Z2074_0<'a, T0: Resource + ZRes, T1: Debug + Resource + for<'b> Hrtb<'b>, T2: Debug + Resource + for<'b> Hrtb<'b>>(WriteExpect<'a, D7>, ReadExpect<'a, T0>, Read<'a, D24>, Write<'a, T1, Hc<D18>>, Read<'a, N9, PanicHandler>, Write<'a, T2, Hc<D24>>, Write<'a, D25, Hc<D19>>, Read<'a, D10, Hc<D13>>, Option<Read<'a, D8>>, Write<'a, D6, Hc<D1>>, Write<'a, D20, Hc<D23>>, PhantomData<[u32]>, Read<'a, D5, Hc<D6>>, Read<'a, D1, Hc<D12>>, Option<Read<'a, D3, PanicHandler>>, Write<'a, N4, PanicHandler>, Option<WriteExpect<'a, N11>>, (), Write<'a, D22, Hc<D3>>, (), PhantomData<u8>, ReadExpect<'a, D18>, Write<'a, D0, DefaultProvider>, Write<'a, D17, Hc<D22>>, ReadExpect<'a, N21>, Write<'a, D13>);
-shredh::zoo_case!(c2074, 2074, 'a, Z2074_0<'a, D12, D19, D14>);
-#[derive(SystemData)] pub struct Z2082_0<'a, U0, U1, U2>(pub U0, pub PhantomData<u8>, pub (), pub PhantomData<(Write<'a, D1>,)>, pub U1, pub Read<'a, D2, PanicHandler>, pub Option<Read<'a, D3>>, pub PhantomData<[u32]>, pub (), pub PhantomData<fn() -> N2>, pub U2, pub (), pub (), pub PhantomData<(Write<'a, D1>,)>, pub Read<'a, D2, DefaultProvider>, pub Read<'a, D3>, pub ReadExpect<'a, D3>) where U0: SystemData<'a>, U1: SystemData<'a>, U2: SystemData<'a>;
-shredh::zoo_case!(c2082, 2082, 'a, Z2082_0<'a, ReadExpect<'a, D3>, Option<Read<'a, D2>>, Option<Read<'a, D2, PanicHandler>>>);
-#[derive(SystemData)] pub struct Z2090_1<'a> { f0: Option<ReadExpect<'a, D0>>, }
-#[derive(SystemData)] pub struct Z2090_2<'a>(pub (), pub Option<ReadExpect<'a, D0>>, pub Option<WriteExpect<'a, N1>>);
-#[derive(SystemData)] pub struct Z2090_0<'a, U0, U1, U2>(pub (Option<Write<'a, N5, PanicHandler>>, ), pub Z2090_1<'a>, pub U0, pub ReadExpect<'a, D2>, pub U1, pub (), pub U2, pub Write<'a, D6>, pub Option<Read<'a, N5>>, pub Option<Read<'a, D2>>, pub Z2090_2<'a>, pub Read<'a, D4, Hc<D6>>, pub Read<'a, D0, Hc<D6>>, pub ReadExpect<'a, D0>) where U0: SystemData<'a>, U1: SystemData<'a>, U2: SystemData<'a>;
-shredh::zoo_case!(c2090, 2090, 'a, Z2090_0<'a, PhantomData<(Write<'a, D1>,)>, (ReadExpect<'a, D4>, Read<'a, D4, Hc<D0>>, (), ), Read<'a, D6, Hc<D3>>>);
-pub static CASES: &[&shredh::zoo::Ops] = &[
-    &c2::OPS,
-    &c10::OPS,
-    &c18::OPS,
-    &c26::OPS,
-    &c34::OPS,
-    &c42::OPS,
-    &c50::OPS,
-    &c58::OPS,
-    &c66::OPS,
-    &c74::OPS,
-    &c82::OPS,
-    &c90::OPS,
-    &c98::OPS,
-    &c106::OPS,
-    &c114::OPS,
-    &c122::OPS,
-    &c130::OPS,
-    &c138::OPS,
-    &c146::OPS,
-    &c154::OPS,
-    &c162::OPS,
-    &c170::OPS,
-    &c178::OPS,
-    &c186::OPS,
-    &c194::OPS,
-    &c202::OPS,
-    &c210::OPS,
-    &c218::OPS,
-    &c226::OPS,
-    &c234::OPS,
-    &c242::OPS,
-    &c250::OPS,
-    &c258::OPS,
-    &c266::OPS,
-    &c274::OPS,
-    &c282::OPS,
-    &c290::OPS,
-    &c298::OPS,
-    &c306::OPS,
-    &c314::OPS,
-    &c322::OPS,
-    &c330::OPS,
-    &c338::OPS,
-    &c346::OPS,
-    &c354::OPS,
-    &c362::OPS,
-    &c370::OPS,
-    &c378::OPS,
-    &c386::OPS,
-    &c394::OPS,
-    &c402::OPS,
-    &c410::OPS,
-    &c418::OPS,
-    &c426::OPS,
-    &c434::OPS,
-    &c442::OPS,
-    &c450::OPS,
-    &c458::OPS,
-    &c466::OPS,
-    &c474::OPS,
-    &c482::OPS,
-    &c490::OPS,
-    &c498::OPS,
-    &c506::OPS,
-    &c514::OPS,
-    &c522::OPS,
-    &c530::OPS,
-    &c538::OPS,
-    &c546::OPS,
-    &c554::OPS,
-    &c562::OPS,
-    &c570::OPS,
-    &c578::OPS,
-    &c586::OPS,
-    &c594::OPS,
-    &c602::OPS,
-    &c610::OPS,
-    &c618::OPS,
-    &c626::OPS,
-    &c634::OPS,
-    &c642::OPS,
-    &c650::OPS,
-    &c658::OPS,
-    &c666::OPS,
-    &c674::OPS,
-    &c682::OPS,
-    &c690::OPS,
-    &c698::OPS,
-    &c706::OPS,
-    &c714::OPS,
-    &c722::OPS,
-    &c730::OPS,
-    &c738::OPS,
-    &c746::OPS,
-    &c754::OPS,
-    &c762::OPS,
-    &c770::OPS,
-    &c778::OPS,
-    &c786::OPS,
-    &c794::OPS,
-    &c802::OPS,
-    &c810::OPS,
-    &c818::OPS,
-    &c826::OPS,
-    &c834::OPS,
-    &c842::OPS,
-    &c850::OPS,
-    &c858::OPS,
-    &c866::OPS,
-    &c874::OPS,
-    &c882::OPS,
-    &c890::OPS,
-    &c898::OPS,
-    &c906::OPS,
-    &c914::OPS,
-    &c922::OPS,
-    &c930::OPS,
-    &c938::OPS,
-    &c946::OPS,
-    &c954::OPS,
-    &c962::OPS,
-    &c970::OPS,
-    &c978::OPS,
-    &c986::OPS,
-    &c994::OPS,
-    &c1002::OPS,
-    &c1010::OPS,
-    &c1018::OPS,
-    &c1026::OPS,
-    &c1034::OPS,
-    &c1042::OPS,
-    &c1050::OPS,
-    &c1058::OPS,
-    &c1066::OPS,
-    &c1074::OPS,
-    &c1082::OPS,
-    &c1090::OPS,
-    &c1098::OPS,
-    &c1106::OPS,
-    &c1114::OPS,
-    &c1122::OPS,
-    &c1130::OPS,
-    &c1138::OPS,
-    &c1146::OPS,
-    &c1154::OPS,
-    &c1162::OPS,
-    &c1170::OPS,
-    &c1178::OPS,
-    &c1186::OPS,
-    &c1194::OPS,
-    &c1202::OPS,
-    &c1210::OPS,
-    &c1218::OPS,
-    &c1226::OPS,
-    &c1234::OPS,
-    &c1242::OPS,
-    &c1250::OPS,
-    &c1258::OPS,
-    &c1266::OPS,
-    &c1274::OPS,
-    &c1282::OPS,
-    &c1290::OPS,
-    &c1298::OPS,
-    &c1306::OPS,
-    &c1314::OPS,
-    &c1322::OPS,
-    &c1330::OPS,
-    &c1338::OPS,
-    &c1346::OPS,
-    &c1354::OPS,
-    &c1362::OPS,
-    &c1370::OPS,
-    &c1378::OPS,
-    &c1386::OPS,
-    &c1394::OPS,
-    &c1402::OPS,
-    &c1410::OPS,
-    &c1418::OPS,
-    &c1426::OPS,
-    &c1434::OPS,
-    &c1442::OPS,
-    &c1450::OPS,
-    &c1458::OPS,
-    &c1466::OPS,
-    &c1474::OPS,
-    &c1482::OPS,
-    &c1490::OPS,
-    &c1498::OPS,
-    &c1506::OPS,
-    &c1514::OPS,
-    &c1522::OPS,
-    &c1530::OPS,
-    &c1538::OPS,
-    &c1546::OPS,
-    &c1554::OPS,
-    &c1562::OPS,
-    &c1570::OPS,
-    &c1578::OPS,
-    &c1586::OPS,
-    &c1594::OPS,
-    &c1602::OPS,
-    &c1610::OPS,
-    &c1618::OPS,
-    &c1626::OPS,
-    &c1634::OPS,
-    &c1642::OPS,
-    &c1650::OPS,
-    &c1658::OPS,
-    &c1666::OPS,
-    &c1674::OPS,
-    &c1682::OPS,
-    &c1690::OPS,
-    &c1698::OPS,
-    &c1706::OPS,
-    &c1714::OPS,
-    &c1722::OPS,
-    &c1730::OPS,
-    &c1738::OPS,
-    &c1746::OPS,
-    &c1754::OPS,
-    &c1762::OPS,
-    &c1770::OPS,
-    &c1778::OPS,
-    &c1786::OPS,
-    &c1794::OPS,
-    &c1802::OPS,
-    &c1810::OPS,
-    &c1818::OPS,
-    &c1826::OPS,
-    &c1834::OPS,
-    &c1842::OPS,
-    &c1850::OPS,
-    &c1858::OPS,
-    &c1866::OPS,
-    &c1874::OPS,
-    &c1882::OPS,
-    &c1890::OPS,
-    &c1898::OPS,
-    &c1906::OPS,
-    &c1914::OPS,
-    &c1922::OPS,
-    &c1930::OPS,
-    &c1938::OPS,
-    &c1946::OPS,
-    &c1954::OPS,
-    &c1962::OPS,
-    &c1970::OPS,
-    &c1978::OPS,
-    &c1986::OPS,
-    &c1994::OPS,
-    &c2002::OPS,
-    &c2010::OPS,
-    &c2018::OPS,
-    &c2026::OPS,
-    &c2034::OPS,
-    &c2042::OPS,
-    &c2050::OPS,
-    &c2058::OPS,
-    &c2066::OPS,
-    &c2074::OPS,
-    &c2082::OPS,
-    &c2090::OPS,
-];
+// placeholder written by harness/gen/zoo.py (the real file is a build artefact of bin/check C06)
+pub const GEN_HASH: &str = "placeholder";
+pub static CASES: &[&shredh::zoo::Ops] = &[];
